@@ -4,7 +4,7 @@
 From LibcoapV Require Import Base.Tactics Observe.Observe Observe.Accept Observe.ObserveProofs.
 Local Open Scope Z_scope.
 
-Definition ac_kt (o : ac_obs) : Z * ob_tok := (ao_s o, ao_t o).
+Definition ac_kt (o : ac_obs) : Z * ob_tok := (acao_s o, acao_t o).
 
 Lemma ac_obs_is_kt : forall s t o, ac_obs_is s t o = true <-> ac_kt o = (s, t).
 Proof.
@@ -21,17 +21,17 @@ Qed.
 
 Definition ac_find (rs : list ac_res) (r s : Z) (t : ob_tok) : option ac_obs :=
   match ac_get r rs with
-  | Some y => ob_find (ac_obs_is s t) (ar_obs y)
+  | Some y => ob_find (ac_obs_is s t) (acar_obs y)
   | None => None
   end.
 
-Definition ac_entry (st : ac_state) := ac_find (as_res st).
+Definition ac_entry (st : ac_state) := ac_find (acas_res st).
 
 Definition ac_reg (st : ac_state) (r s : Z) (t : ob_tok) : bool :=
   match ac_entry st r s t with Some _ => true | None => false end.
 
-Definition ac_res_wf (y : ac_res) : Prop := NoDup (map ac_kt (ar_obs y)).
-Definition ac_wf (rs : list ac_res) : Prop := NoDup (map ar_id rs) /\ Forall ac_res_wf rs.
+Definition ac_res_wf (y : ac_res) : Prop := NoDup (map ac_kt (acar_obs y)).
+Definition ac_wf (rs : list ac_res) : Prop := NoDup (map acar_id rs) /\ Forall ac_res_wf rs.
 
 (* ---- lists of observers *)
 
@@ -77,11 +77,11 @@ Lemma nodup_del : forall s t l, NoDup (map ac_kt l) -> NoDup (map ac_kt (ac_del 
 Proof. intros s t l H. unfold ac_del. apply ob_remove1_nodup. assumption. Qed.
 
 Lemma find_filter_sess : forall s t s' l,
-  ob_find (ac_obs_is s t) (filter (fun o => negb (ao_s o =? s')) l) =
+  ob_find (ac_obs_is s t) (filter (fun o => negb (acao_s o =? s')) l) =
   if s =? s' then None else ob_find (ac_obs_is s t) l.
 Proof.
   intros s t s' l. induction l as [|o l IH]; cbn [filter ob_find]; [destruct (s =? s'); reflexivity|].
-  destruct (ao_s o =? s') eqn:E1; cbn [negb].
+  destruct (acao_s o =? s') eqn:E1; cbn [negb].
   - rewrite IH. destruct (s =? s') eqn:E2; [reflexivity|].
     assert (ac_obs_is s t o = false) as ->; [|reflexivity].
     unfold ac_obs_is. apply Z.eqb_eq in E1. rewrite E1, Z.eqb_sym, E2. reflexivity.
@@ -103,41 +103,41 @@ Qed.
 
 Lemma ac_get_upd : forall r r' f rs,
   ac_get r (ac_upd r' f rs) =
-  if r =? r' then option_map (fun y => mk_ar (ar_id y) (f (ar_obs y))) (ac_get r rs)
+  if r =? r' then option_map (fun y => ac_mk_ar (acar_id y) (f (acar_obs y))) (ac_get r rs)
   else ac_get r rs.
 Proof.
   intros r r' f. induction rs as [|y rs IH]; cbn [ac_upd ac_get]; [destruct (r =? r'); reflexivity|].
-  destruct (ar_id y =? r') eqn:E1; cbn [ac_get ar_id].
-  - destruct (ar_id y =? r) eqn:E2.
+  destruct (acar_id y =? r') eqn:E1; cbn [ac_get acar_id].
+  - destruct (acar_id y =? r) eqn:E2.
     + assert (r =? r' = true) as -> by (apply Z.eqb_eq; apply Z.eqb_eq in E1, E2; lia). reflexivity.
     + assert (r =? r' = false) as -> by (apply Z.eqb_neq; apply Z.eqb_eq in E1; apply Z.eqb_neq in E2; lia).
       reflexivity.
-  - destruct (ar_id y =? r) eqn:E2.
+  - destruct (acar_id y =? r) eqn:E2.
     + assert (r =? r' = false) as -> by (apply Z.eqb_neq; apply Z.eqb_eq in E2; apply Z.eqb_neq in E1; lia).
       reflexivity.
     + exact IH.
 Qed.
 
 Lemma ac_get_map : forall r (g : list ac_obs -> list ac_obs) rs,
-  ac_get r (map (fun y => mk_ar (ar_id y) (g (ar_obs y))) rs) =
-  option_map (fun y => mk_ar (ar_id y) (g (ar_obs y))) (ac_get r rs).
+  ac_get r (map (fun y => ac_mk_ar (acar_id y) (g (acar_obs y))) rs) =
+  option_map (fun y => ac_mk_ar (acar_id y) (g (acar_obs y))) (ac_get r rs).
 Proof.
-  intros r g. induction rs as [|y rs IH]; cbn [map ac_get ar_id option_map]; [reflexivity|].
-  destruct (ar_id y =? r); [reflexivity | exact IH].
+  intros r g. induction rs as [|y rs IH]; cbn [map ac_get acar_id option_map]; [reflexivity|].
+  destruct (acar_id y =? r); [reflexivity | exact IH].
 Qed.
 
-Lemma ac_get_in : forall r rs y, ac_get r rs = Some y -> In y rs /\ ar_id y = r.
+Lemma ac_get_in : forall r rs y, ac_get r rs = Some y -> In y rs /\ acar_id y = r.
 Proof.
   induction rs as [|x rs IH]; cbn [ac_get]; intros y H; [discriminate|].
-  destruct (ar_id x =? r) eqn:E.
+  destruct (acar_id x =? r) eqn:E.
   - inversion H; subst. split; [left; reflexivity | apply Z.eqb_eq; assumption].
   - destruct (IH y H). split; [right|]; assumption.
 Qed.
 
-Lemma ac_upd_ids : forall r f rs, map ar_id (ac_upd r f rs) = map ar_id rs.
+Lemma ac_upd_ids : forall r f rs, map acar_id (ac_upd r f rs) = map acar_id rs.
 Proof.
   intros r f. induction rs as [|y rs IH]; cbn [ac_upd map]; [reflexivity|].
-  destruct (ar_id y =? r); cbn [map ar_id]; [reflexivity | f_equal; assumption].
+  destruct (acar_id y =? r); cbn [map acar_id]; [reflexivity | f_equal; assumption].
 Qed.
 
 Lemma ac_upd_wf : forall r f rs,
@@ -145,12 +145,12 @@ Lemma ac_upd_wf : forall r f rs,
 Proof.
   intros r f rs Hf [A B]. split; [rewrite ac_upd_ids; assumption|].
   clear A. induction rs as [|y rs IH]; cbn [ac_upd]; [constructor|]. inversion B; subst.
-  destruct (ar_id y =? r); constructor; auto. unfold ac_res_wf. cbn. apply Hf. assumption.
+  destruct (acar_id y =? r); constructor; auto. unfold ac_res_wf. cbn. apply Hf. assumption.
 Qed.
 
 Lemma ac_map_wf : forall (g : list ac_obs -> list ac_obs) rs,
   (forall l, NoDup (map ac_kt l) -> NoDup (map ac_kt (g l))) -> ac_wf rs ->
-  ac_wf (map (fun y => mk_ar (ar_id y) (g (ar_obs y))) rs).
+  ac_wf (map (fun y => ac_mk_ar (acar_id y) (g (acar_obs y))) rs).
 Proof.
   intros g rs Hg [A B]. split; [rewrite map_map; cbn; assumption|].
   apply Forall_map. eapply Forall_impl; [|exact B]. intros y Hy. unfold ac_res_wf. cbn.
@@ -160,7 +160,7 @@ Qed.
 Lemma ac_find_upd : forall r s t r' f rs,
   ac_find (ac_upd r' f rs) r s t =
   if r =? r' then match ac_get r rs with
-                  | Some y => ob_find (ac_obs_is s t) (f (ar_obs y))
+                  | Some y => ob_find (ac_obs_is s t) (f (acar_obs y))
                   | None => None
                   end
   else ac_find rs r s t.
@@ -170,16 +170,16 @@ Proof.
 Qed.
 
 Lemma ac_find_map : forall r s t (g : list ac_obs -> list ac_obs) rs,
-  ac_find (map (fun y => mk_ar (ar_id y) (g (ar_obs y))) rs) r s t =
+  ac_find (map (fun y => ac_mk_ar (acar_id y) (g (acar_obs y))) rs) r s t =
   match ac_get r rs with
-  | Some y => ob_find (ac_obs_is s t) (g (ar_obs y))
+  | Some y => ob_find (ac_obs_is s t) (g (acar_obs y))
   | None => None
   end.
 Proof.
   intros r s t g rs. unfold ac_find. rewrite ac_get_map. destruct (ac_get r rs); reflexivity.
 Qed.
 
-Lemma ac_wf_get : forall r rs y, ac_wf rs -> ac_get r rs = Some y -> NoDup (map ac_kt (ar_obs y)).
+Lemma ac_wf_get : forall r rs y, ac_wf rs -> ac_get r rs = Some y -> NoDup (map ac_kt (acar_obs y)).
 Proof.
   intros r rs y [_ B] H. apply ac_get_in in H. destruct H as [H _].
   rewrite Forall_forall in B. exact (B y H).
@@ -189,64 +189,64 @@ Qed.
 
 Definition ac_out_key (o : ob_out) : option (Z * Z * ob_tok) :=
   match o with
-  | ONotify _ r s t _ _ => Some (r, s, t)
-  | OErr _ r s t _ => Some (r, s, t)
-  | OGone r s t => Some (r, s, t)
-  | ORegResp _ _ _ _ => None
+  | ObNotify _ r s t _ _ => Some (r, s, t)
+  | ObErr _ r s t _ => Some (r, s, t)
+  | ObGone r s t => Some (r, s, t)
+  | ObRegResp _ _ _ _ => None
   end.
 
-Definition ac_cur (o : ac_obs) : Z := (ao_val o + ao_chg o) mod ob_M.
+Definition ac_cur (o : ac_obs) : Z := (acao_val o + acao_chg o) mod ob_M.
 
 Definition ac_after_notify (o : ac_obs) (v : Z) (con : bool) (k : Z) : ac_obs :=
-  mk_ao (ao_s o) (ao_t o) (ao_key o) v 0 false (if con then 0 else ao_run o + 1) k (ao_since o).
+  ac_mk_ao (acao_s o) (acao_t o) (acao_key o) v 0 false (if con then 0 else acao_run o + 1) k (acao_since o).
 
 Lemma ac_notified_kt : forall s t v run k o, ac_kt (ac_notified s t v run k o) = ac_kt o.
 Proof. intros. unfold ac_notified. destruct (ac_obs_is s t o); reflexivity. Qed.
 
 Lemma out_step_other : forall c w out w' r s t,
   ac_out_step c w out = inl w' -> ac_out_key out <> Some (r, s, t) ->
-  ac_find (aw_res w') r s t = ac_find (aw_res w) r s t.
+  ac_find (acaw_res w') r s t = ac_find (acaw_res w) r s t.
 Proof.
   intros c w out w' r s t H Hk. destruct out as [k r0 s0 t0 v con|k r0 s0 t0 con| |];
     cbn [ac_out_step] in H; try discriminate.
-  - destruct (negb (k =? aw_nk w)); [discriminate|].
-    destruct (ac_get r0 (aw_res w)) as [res|] eqn:G; [|discriminate].
-    destruct (ob_find (ac_obs_is s0 t0) (ar_obs res)) as [e|]; [|discriminate].
-    destruct (negb (v =? (ao_val e + ao_chg e) mod ob_M)); [discriminate|].
-    destruct (negb ((1 <=? ao_chg e) || ao_weak e)); [discriminate|].
+  - destruct (negb (k =? acaw_nk w)); [discriminate|].
+    destruct (ac_get r0 (acaw_res w)) as [res|] eqn:G; [|discriminate].
+    destruct (ob_find (ac_obs_is s0 t0) (acar_obs res)) as [e|]; [|discriminate].
+    destruct (negb (v =? (acao_val e + acao_chg e) mod ob_M)); [discriminate|].
+    destruct (negb ((1 <=? acao_chg e) || acao_weak e)); [discriminate|].
     match type of H with (if ?b then _ else _) = _ => destruct b; [discriminate|] end.
-    inversion H; subst w'. unfold ac_note. cbn [aw_res]. rewrite ac_find_upd.
+    inversion H; subst w'. unfold ac_note. cbn [acaw_res]. rewrite ac_find_upd.
     destruct (r =? r0) eqn:E; [|reflexivity]. apply Z.eqb_eq in E. subst r0.
     unfold ac_find. rewrite G. rewrite find_map_keep by (intro; apply ac_notified_kt).
-    destruct (ob_find (ac_obs_is s t) (ar_obs res)) as [o|] eqn:F; [|reflexivity].
+    destruct (ob_find (ac_obs_is s t) (acar_obs res)) as [o|] eqn:F; [|reflexivity].
     cbn [option_map]. f_equal. unfold ac_notified.
     apply ob_find_some in F. destruct F as [_ F]. apply ac_obs_is_kt in F.
     assert (ac_obs_is s0 t0 o = false) as ->; [|reflexivity].
     apply ac_obs_is_false. rewrite F. intro Heq. inversion Heq; subst. apply Hk. reflexivity.
-  - destruct (negb (k =? aw_nk w)); [discriminate|].
-    destruct (ac_get r0 (aw_res w)) as [res|] eqn:G; [|discriminate].
-    destruct (ob_find (ac_obs_is s0 t0) (ar_obs res)) as [e|]; [|discriminate].
-    inversion H; subst w'. unfold ac_note. cbn [aw_res]. rewrite ac_find_upd.
+  - destruct (negb (k =? acaw_nk w)); [discriminate|].
+    destruct (ac_get r0 (acaw_res w)) as [res|] eqn:G; [|discriminate].
+    destruct (ob_find (ac_obs_is s0 t0) (acar_obs res)) as [e|]; [|discriminate].
+    inversion H; subst w'. unfold ac_note. cbn [acaw_res]. rewrite ac_find_upd.
     destruct (r =? r0) eqn:E; [|reflexivity]. apply Z.eqb_eq in E. subst r0.
     unfold ac_find. rewrite G. apply find_del_other. intro Heq. inversion Heq; subst.
     apply Hk. reflexivity.
 Qed.
 
 Lemma out_step_notify : forall c w k r s t v con w',
-  ac_out_step c w (ONotify k r s t v con) = inl w' ->
-  exists o, ac_find (aw_res w) r s t = Some o /\ v = ac_cur o /\
-            (1 <= ao_chg o \/ ao_weak o = true) /\
-            (ac_mode c r <> 2 -> (if con then 0 else ao_run o + 1) <= cf_max_non c) /\
-            k = aw_nk w /\
-            ac_find (aw_res w') r s t = Some (ac_after_notify o v con k).
+  ac_out_step c w (ObNotify k r s t v con) = inl w' ->
+  exists o, ac_find (acaw_res w) r s t = Some o /\ v = ac_cur o /\
+            (1 <= acao_chg o \/ acao_weak o = true) /\
+            (ac_mode c r <> 2 -> (if con then 0 else acao_run o + 1) <= accf_max_non c) /\
+            k = acaw_nk w /\
+            ac_find (acaw_res w') r s t = Some (ac_after_notify o v con k).
 Proof.
   intros c w k r s t v con w' H. cbn [ac_out_step] in H.
-  destruct (k =? aw_nk w) eqn:Ek; cbn [negb] in H; [|discriminate].
-  destruct (ac_get r (aw_res w)) as [res|] eqn:G; [|discriminate].
-  destruct (ob_find (ac_obs_is s t) (ar_obs res)) as [e|] eqn:F; [|discriminate].
-  destruct (v =? (ao_val e + ao_chg e) mod ob_M) eqn:Ev; cbn [negb] in H; [|discriminate].
-  destruct ((1 <=? ao_chg e) || ao_weak e) eqn:Ec; cbn [negb] in H; [|discriminate].
-  destruct (negb (ac_mode c r =? 2) && (cf_max_non c <? (if con then 0 else ao_run e + 1))) eqn:Er;
+  destruct (k =? acaw_nk w) eqn:Ek; cbn [negb] in H; [|discriminate].
+  destruct (ac_get r (acaw_res w)) as [res|] eqn:G; [|discriminate].
+  destruct (ob_find (ac_obs_is s t) (acar_obs res)) as [e|] eqn:F; [|discriminate].
+  destruct (v =? (acao_val e + acao_chg e) mod ob_M) eqn:Ev; cbn [negb] in H; [|discriminate].
+  destruct ((1 <=? acao_chg e) || acao_weak e) eqn:Ec; cbn [negb] in H; [|discriminate].
+  destruct (negb (ac_mode c r =? 2) && (accf_max_non c <? (if con then 0 else acao_run e + 1))) eqn:Er;
     [discriminate|].
   inversion H; subst w'. exists e. unfold ac_find at 1. rewrite G.
   split; [assumption|]. split; [apply Z.eqb_eq; assumption|]. split.
@@ -256,50 +256,50 @@ Proof.
     - apply negb_false_iff in Er. apply Z.eqb_eq in Er. contradiction.
     - apply Z.ltb_ge in Er. assumption. }
   split; [apply Z.eqb_eq; assumption|].
-  unfold ac_note. cbn [aw_res]. rewrite ac_find_upd, Z.eqb_refl, G.
+  unfold ac_note. cbn [acaw_res]. rewrite ac_find_upd, Z.eqb_refl, G.
   rewrite find_map_keep by (intro; apply ac_notified_kt). rewrite F. cbn [option_map]. f_equal.
   unfold ac_notified, ac_after_notify. apply ob_find_some in F. destruct F as [_ F]. rewrite F.
   reflexivity.
 Qed.
 
 Lemma out_step_err : forall c w k r s t con w',
-  ac_out_step c w (OErr k r s t con) = inl w' ->
-  (exists o, ac_find (aw_res w) r s t = Some o) /\
-  (ac_wf (aw_res w) -> ac_find (aw_res w') r s t = None).
+  ac_out_step c w (ObErr k r s t con) = inl w' ->
+  (exists o, ac_find (acaw_res w) r s t = Some o) /\
+  (ac_wf (acaw_res w) -> ac_find (acaw_res w') r s t = None).
 Proof.
   intros c w k r s t con w' H. cbn [ac_out_step] in H.
-  destruct (negb (k =? aw_nk w)); [discriminate|].
-  destruct (ac_get r (aw_res w)) as [res|] eqn:G; [|discriminate].
-  destruct (ob_find (ac_obs_is s t) (ar_obs res)) as [e|] eqn:F; [|discriminate].
+  destruct (negb (k =? acaw_nk w)); [discriminate|].
+  destruct (ac_get r (acaw_res w)) as [res|] eqn:G; [|discriminate].
+  destruct (ob_find (ac_obs_is s t) (acar_obs res)) as [e|] eqn:F; [|discriminate].
   inversion H; subst w'. split; [exists e; unfold ac_find; rewrite G; assumption|].
-  intro Hwf. unfold ac_note. cbn [aw_res]. rewrite ac_find_upd, Z.eqb_refl, G.
+  intro Hwf. unfold ac_note. cbn [acaw_res]. rewrite ac_find_upd, Z.eqb_refl, G.
   apply find_del_same. eapply ac_wf_get; eassumption.
 Qed.
 
 Lemma out_step_wf : forall c w out w',
-  ac_out_step c w out = inl w' -> ac_wf (aw_res w) -> ac_wf (aw_res w').
+  ac_out_step c w out = inl w' -> ac_wf (acaw_res w) -> ac_wf (acaw_res w').
 Proof.
   intros c w out w' H Hwf. destruct out as [k r0 s0 t0 v con|k r0 s0 t0 con| |];
     cbn [ac_out_step] in H; try discriminate.
-  - destruct (negb (k =? aw_nk w)); [discriminate|].
-    destruct (ac_get r0 (aw_res w)) as [res|]; [|discriminate].
-    destruct (ob_find (ac_obs_is s0 t0) (ar_obs res)) as [e|]; [|discriminate].
-    destruct (negb (v =? (ao_val e + ao_chg e) mod ob_M)); [discriminate|].
-    destruct (negb ((1 <=? ao_chg e) || ao_weak e)); [discriminate|].
+  - destruct (negb (k =? acaw_nk w)); [discriminate|].
+    destruct (ac_get r0 (acaw_res w)) as [res|]; [|discriminate].
+    destruct (ob_find (ac_obs_is s0 t0) (acar_obs res)) as [e|]; [|discriminate].
+    destruct (negb (v =? (acao_val e + acao_chg e) mod ob_M)); [discriminate|].
+    destruct (negb ((1 <=? acao_chg e) || acao_weak e)); [discriminate|].
     match type of H with (if ?b then _ else _) = _ => destruct b; [discriminate|] end.
-    inversion H; subst w'. unfold ac_note. cbn [aw_res]. apply ac_upd_wf; [|assumption].
+    inversion H; subst w'. unfold ac_note. cbn [acaw_res]. apply ac_upd_wf; [|assumption].
     intros l Hl. apply nodup_map_keep; [intro; apply ac_notified_kt | assumption].
-  - destruct (negb (k =? aw_nk w)); [discriminate|].
-    destruct (ac_get r0 (aw_res w)) as [res|]; [|discriminate].
-    destruct (ob_find (ac_obs_is s0 t0) (ar_obs res)) as [e|]; [|discriminate].
-    inversion H; subst w'. unfold ac_note. cbn [aw_res]. apply ac_upd_wf; [|assumption].
+  - destruct (negb (k =? acaw_nk w)); [discriminate|].
+    destruct (ac_get r0 (acaw_res w)) as [res|]; [|discriminate].
+    destruct (ob_find (ac_obs_is s0 t0) (acar_obs res)) as [e|]; [|discriminate].
+    inversion H; subst w'. unfold ac_note. cbn [acaw_res]. apply ac_upd_wf; [|assumption].
     intros l Hl. apply nodup_del. assumption.
 Qed.
 
 (* outputs accepted inside a step are notifications or error responses *)
 Lemma out_step_kind : forall c w out w',
   ac_out_step c w out = inl w' ->
-  (exists k r s t v con, out = ONotify k r s t v con) \/ (exists k r s t con, out = OErr k r s t con).
+  (exists k r s t v con, out = ObNotify k r s t v con) \/ (exists k r s t con, out = ObErr k r s t con).
 Proof.
   intros c w out w' H. destruct out; cbn [ac_out_step] in H; try discriminate.
   - left. repeat eexists.
@@ -308,7 +308,7 @@ Qed.
 
 (* ------------------------------------------------------------------ all outputs of a step *)
 
-Lemma outs_wf : forall c outs w w', ac_outs c w outs = inl w' -> ac_wf (aw_res w) -> ac_wf (aw_res w').
+Lemma outs_wf : forall c outs w w', ac_outs c w outs = inl w' -> ac_wf (acaw_res w) -> ac_wf (acaw_res w').
 Proof.
   intros c. induction outs as [|o outs IH]; intros w w' H Hwf; cbn [ac_outs] in H.
   - inversion H; subst. assumption.
@@ -318,7 +318,7 @@ Qed.
 
 Lemma outs_other : forall c r s t outs w w',
   ac_outs c w outs = inl w' -> (forall o, In o outs -> ac_out_key o <> Some (r, s, t)) ->
-  ac_find (aw_res w') r s t = ac_find (aw_res w) r s t.
+  ac_find (acaw_res w') r s t = ac_find (acaw_res w) r s t.
 Proof.
   intros c r s t. induction outs as [|o outs IH]; intros w w' H Hk; cbn [ac_outs] in H.
   - inversion H; subst. reflexivity.
@@ -329,7 +329,7 @@ Qed.
 
 (* entries do not appear during a step *)
 Lemma out_step_no_new : forall c w out w' r s t,
-  ac_out_step c w out = inl w' -> ac_find (aw_res w) r s t = None -> ac_find (aw_res w') r s t = None.
+  ac_out_step c w out = inl w' -> ac_find (acaw_res w) r s t = None -> ac_find (acaw_res w') r s t = None.
 Proof.
   intros c w out w' r s t H Hn.
   destruct (out_step_kind _ _ _ _ H) as [[k [r0 [s0 [t0 [v [con ->]]]]]]|[k [r0 [s0 [t0 [con ->]]]]]].
@@ -342,7 +342,7 @@ Proof.
 Qed.
 
 Lemma outs_no_new : forall c r s t outs w w',
-  ac_outs c w outs = inl w' -> ac_find (aw_res w) r s t = None -> ac_find (aw_res w') r s t = None.
+  ac_outs c w outs = inl w' -> ac_find (acaw_res w) r s t = None -> ac_find (acaw_res w') r s t = None.
 Proof.
   intros c r s t. induction outs as [|o outs IH]; intros w w' H Hn; cbn [ac_outs] in H.
   - inversion H; subst. assumption.
@@ -353,7 +353,7 @@ Qed.
 (* every output of an accepted step goes to an observer registered when the step began *)
 Lemma outs_registered : forall c r s t outs w w' o,
   ac_outs c w outs = inl w' -> In o outs -> ac_out_key o = Some (r, s, t) ->
-  exists e, ac_find (aw_res w) r s t = Some e.
+  exists e, ac_find (acaw_res w) r s t = Some e.
 Proof.
   intros c r s t. induction outs as [|o0 outs IH]; intros w w' o H Hin Hk; [destruct Hin|].
   cbn [ac_outs] in H. destruct (ac_out_step c w o0) as [w1|] eqn:E; [|discriminate].
@@ -363,7 +363,7 @@ Proof.
     + destruct (out_step_notify _ _ _ _ _ _ _ _ _ E) as [e [F _]]. exists e. assumption.
     + destruct (out_step_err _ _ _ _ _ _ _ _ E) as [[e F] _]. exists e. assumption.
   - destruct (IH w1 w' o H Hin Hk) as [e He].
-    destruct (ac_find (aw_res w) r s t) as [e0|] eqn:F; [exists e0; reflexivity|].
+    destruct (ac_find (acaw_res w) r s t) as [e0|] eqn:F; [exists e0; reflexivity|].
     rewrite (out_step_no_new _ _ _ _ r s t E F) in He. discriminate.
 Qed.
 
@@ -375,22 +375,22 @@ Proof.
 Qed.
 
 Definition ac_no_notify (r s : Z) (t : ob_tok) (outs : list ob_out) : Prop :=
-  forall k v con, ~ In (ONotify k r s t v con) outs.
+  forall k v con, ~ In (ObNotify k r s t v con) outs.
 
 Lemma outs_none_stays : forall c r s t outs w w',
-  ac_outs c w outs = inl w' -> ac_find (aw_res w) r s t = None ->
-  (forall o, In o outs -> ac_out_key o <> Some (r, s, t)) /\ ac_find (aw_res w') r s t = None.
+  ac_outs c w outs = inl w' -> ac_find (acaw_res w) r s t = None ->
+  (forall o, In o outs -> ac_out_key o <> Some (r, s, t)) /\ ac_find (acaw_res w') r s t = None.
 Proof.
   intros c r s t outs w w' H Hn. split; [|eapply outs_no_new; eassumption].
   intros o Ho Hk. destruct (outs_registered _ _ _ _ _ _ _ _ H Ho Hk) as [e He]. congruence.
 Qed.
 
-(* after a notification (ao_chg = 0, ao_weak = false) no second one passes in the same step *)
+(* after a notification (acao_chg = 0, acao_weak = false) no second one passes in the same step *)
 Lemma outs_after_notify : forall c r s t q outs w w',
-  ac_outs c w outs = inl w' -> ac_wf (aw_res w) ->
-  ac_find (aw_res w) r s t = Some q -> ao_chg q = 0 -> ao_weak q = false ->
+  ac_outs c w outs = inl w' -> ac_wf (acaw_res w) ->
+  ac_find (acaw_res w) r s t = Some q -> acao_chg q = 0 -> acao_weak q = false ->
   ac_no_notify r s t outs /\
-  (ac_find (aw_res w') r s t = Some q \/ ac_find (aw_res w') r s t = None).
+  (ac_find (acaw_res w') r s t = Some q \/ ac_find (acaw_res w') r s t = None).
 Proof.
   intros c r s t q. induction outs as [|o outs IH]; intros w w' H Hwf F Hc Hw; cbn [ac_outs] in H.
   - inversion H; subst. split; [intros k v con []| left; assumption].
@@ -398,27 +398,27 @@ Proof.
     pose proof (out_step_wf _ _ _ _ E Hwf) as Hwf1.
     destruct (out_step_kind _ _ _ _ E) as [[k [r0 [s0 [t0 [v [con ->]]]]]]|[k [r0 [s0 [t0 [con ->]]]]]].
     + destruct (Z.eq_dec r0 r) as [->|Hr].
-      * destruct (ac_obs_is s t (mk_ao s0 t0 [] 0 0 false 0 0 0)) eqn:Ek.
+      * destruct (ac_obs_is s t (ac_mk_ao s0 t0 [] 0 0 false 0 0 0)) eqn:Ek.
         -- apply ac_obs_is_kt in Ek. unfold ac_kt in Ek. cbn in Ek. inversion Ek; subst s0 t0.
            destruct (out_step_notify _ _ _ _ _ _ _ _ _ E) as [o' [F' [_ [Hchk _]]]].
            rewrite F in F'. inversion F'; subst o'. destruct Hchk; [lia | congruence].
-        -- assert (Hne : ac_out_key (ONotify k r s0 t0 v con) <> Some (r, s, t)).
+        -- assert (Hne : ac_out_key (ObNotify k r s0 t0 v con) <> Some (r, s, t)).
            { cbn. intro Heq. inversion Heq; subst.
-             assert (ac_obs_is s t (mk_ao s t [] 0 0 false 0 0 0) = true)
+             assert (ac_obs_is s t (ac_mk_ao s t [] 0 0 false 0 0 0) = true)
                by (apply ac_obs_is_kt; reflexivity). congruence. }
            rewrite <- (out_step_other _ _ _ _ r s t E Hne) in F.
            destruct (IH w1 w' H Hwf1 F Hc Hw) as [I1 I2]. split; [|assumption].
            intros k' v' con' [Heq|Hin]; [|eapply I1; eassumption].
            inversion Heq; subst. apply Hne. reflexivity.
-      * assert (Hne : ac_out_key (ONotify k r0 s0 t0 v con) <> Some (r, s, t)).
+      * assert (Hne : ac_out_key (ObNotify k r0 s0 t0 v con) <> Some (r, s, t)).
         { cbn. intro Heq. inversion Heq; subst. apply Hr. reflexivity. }
         rewrite <- (out_step_other _ _ _ _ r s t E Hne) in F.
         destruct (IH w1 w' H Hwf1 F Hc Hw) as [I1 I2]. split; [|assumption].
         intros k' v' con' [Heq|Hin]; [|eapply I1; eassumption].
         inversion Heq; subst. apply Hr. reflexivity.
-    + destruct (ac_find (aw_res w1) r s t) as [q1|] eqn:F1.
+    + destruct (ac_find (acaw_res w1) r s t) as [q1|] eqn:F1.
       * (* the error response was for somebody else *)
-        assert (Hne : ac_out_key (OErr k r0 s0 t0 con) <> Some (r, s, t)).
+        assert (Hne : ac_out_key (ObErr k r0 s0 t0 con) <> Some (r, s, t)).
         { cbn. intro Heq. inversion Heq; subst.
           destruct (out_step_err _ _ _ _ _ _ _ _ E) as [_ Hnone]. rewrite (Hnone Hwf) in F1. discriminate. }
         pose proof (out_step_other _ _ _ _ r s t E Hne) as Eq. rewrite F1, F in Eq. inversion Eq; subst q1.
@@ -430,15 +430,15 @@ Qed.
 
 (* what one accepted I/O step does to one registered observer *)
 Lemma outs_entry : forall c r s t outs w w' o,
-  ac_outs c w outs = inl w' -> ac_wf (aw_res w) -> ac_find (aw_res w) r s t = Some o ->
+  ac_outs c w outs = inl w' -> ac_wf (acaw_res w) -> ac_find (acaw_res w) r s t = Some o ->
   (ac_no_notify r s t outs /\
-   (ac_find (aw_res w') r s t = Some o \/ ac_find (aw_res w') r s t = None)) \/
+   (ac_find (acaw_res w') r s t = Some o \/ ac_find (acaw_res w') r s t = None)) \/
   (exists k v con,
-     In (ONotify k r s t v con) outs /\ v = ac_cur o /\ (1 <= ao_chg o \/ ao_weak o = true) /\
-     (ac_mode c r <> 2 -> (if con then 0 else ao_run o + 1) <= cf_max_non c) /\
-     (forall k' v' con', In (ONotify k' r s t v' con') outs -> k' = k /\ v' = v /\ con' = con) /\
-     (ac_find (aw_res w') r s t = Some (ac_after_notify o v con k) \/
-      ac_find (aw_res w') r s t = None)).
+     In (ObNotify k r s t v con) outs /\ v = ac_cur o /\ (1 <= acao_chg o \/ acao_weak o = true) /\
+     (ac_mode c r <> 2 -> (if con then 0 else acao_run o + 1) <= accf_max_non c) /\
+     (forall k' v' con', In (ObNotify k' r s t v' con') outs -> k' = k /\ v' = v /\ con' = con) /\
+     (ac_find (acaw_res w') r s t = Some (ac_after_notify o v con k) \/
+      ac_find (acaw_res w') r s t = None)).
 Proof.
   intros c r s t. induction outs as [|o0 outs IH]; intros w w' o H Hwf F; cbn [ac_outs] in H.
   - inversion H; subst. left. split; [intros k v con [] | left; assumption].
@@ -529,8 +529,8 @@ Lemma ac_map_shrinks : forall (g : list ac_obs -> list ac_obs) rs,
   ac_wf rs ->
   (forall l, NoDup (map ac_kt l) -> NoDup (map ac_kt (g l)) /\
              forall s t o', ob_find (ac_obs_is s t) (g l) = Some o' -> ob_find (ac_obs_is s t) l = Some o') ->
-  ac_wf (map (fun y => mk_ar (ar_id y) (g (ar_obs y))) rs) /\
-  ac_shrinks rs (map (fun y => mk_ar (ar_id y) (g (ar_obs y))) rs).
+  ac_wf (map (fun y => ac_mk_ar (acar_id y) (g (acar_obs y))) rs) /\
+  ac_shrinks rs (map (fun y => ac_mk_ar (acar_id y) (g (acar_obs y))) rs).
 Proof.
   intros g rs Hwf Hg. split; [apply ac_map_wf; [intros l Hl; apply Hg; assumption | assumption]|].
   intros r s t o' H. rewrite ac_find_map in H. unfold ac_find.
@@ -552,64 +552,64 @@ Proof.
   intros s0 k. induction rs as [|y rs IH]; intros [A B]; cbn [ac_rst_by_last].
   - split; [split; assumption | intros r s t o' H; assumption].
   - inversion A as [|? ? Hn Hd]; subst. inversion B as [|? ? By Brs]; subst.
-    destruct (ob_find (fun o => (ao_lastk o =? k) && (ao_s o =? s0)) (ar_obs y)) as [o|].
+    destruct (ob_find (fun o => (acao_lastk o =? k) && (acao_s o =? s0)) (acar_obs y)) as [o|].
     + split.
-      * split; [cbn [map ar_id]; constructor; assumption|].
+      * split; [cbn [map acar_id]; constructor; assumption|].
         constructor; [unfold ac_res_wf; cbn; apply nodup_del; assumption | assumption].
-      * intros r s t o' H. unfold ac_find in *. cbn [ac_get ar_id] in *.
-        destruct (ar_id y =? r); [|assumption]. cbn [ar_obs] in H.
+      * intros r s t o' H. unfold ac_find in *. cbn [ac_get acar_id] in *.
+        destruct (acar_id y =? r); [|assumption]. cbn [acar_obs] in H.
         eapply find_del_sub; eassumption.
     + destruct (IH (conj Hd Brs)) as [[I1 I2] I3]. split.
       * split; [cbn [map]; constructor; [|assumption]|constructor; assumption].
-        assert (Hids : map ar_id (ac_rst_by_last s0 k rs) = map ar_id rs).
+        assert (Hids : map acar_id (ac_rst_by_last s0 k rs) = map acar_id rs).
         { clear. induction rs as [|z rs IH]; cbn [ac_rst_by_last map]; [reflexivity|].
-          destruct (ob_find (fun o => (ao_lastk o =? k) && (ao_s o =? s0)) (ar_obs z));
-            cbn [map ar_id]; [reflexivity | f_equal; assumption]. }
+          destruct (ob_find (fun o => (acao_lastk o =? k) && (acao_s o =? s0)) (acar_obs z));
+            cbn [map acar_id]; [reflexivity | f_equal; assumption]. }
         rewrite Hids. assumption.
       * intros r s t o' H. unfold ac_find in *. cbn [ac_get] in *.
-        destruct (ar_id y =? r); [assumption|]. apply (I3 r s t o'). exact H.
+        destruct (acar_id y =? r); [assumption|]. apply (I3 r s t o'). exact H.
 Qed.
 
 Lemma ac_get_drop_other : forall r r' rs,
-  r <> r' -> ac_get r (ac_drop r' rs ++ [mk_ar r' []]) = ac_get r rs.
+  r <> r' -> ac_get r (ac_drop r' rs ++ [ac_mk_ar r' []]) = ac_get r rs.
 Proof.
-  intros r r' rs Hne. induction rs as [|y rs IH]; cbn [ac_drop app ac_get ar_id].
+  intros r r' rs Hne. induction rs as [|y rs IH]; cbn [ac_drop app ac_get acar_id].
   - assert (r' =? r = false) as -> by (apply Z.eqb_neq; lia). reflexivity.
-  - destruct (ar_id y =? r') eqn:E1.
-    + assert (ar_id y =? r = false) as -> by (apply Z.eqb_neq; apply Z.eqb_eq in E1; lia).
-      clear IH. induction rs as [|z rs IH]; cbn [app ac_get ar_id].
+  - destruct (acar_id y =? r') eqn:E1.
+    + assert (acar_id y =? r = false) as -> by (apply Z.eqb_neq; apply Z.eqb_eq in E1; lia).
+      clear IH. induction rs as [|z rs IH]; cbn [app ac_get acar_id].
       * assert (r' =? r = false) as -> by (apply Z.eqb_neq; lia). reflexivity.
-      * destruct (ar_id z =? r); [reflexivity | assumption].
-    + cbn [app ac_get]. destruct (ar_id y =? r); [reflexivity | assumption].
+      * destruct (acar_id z =? r); [reflexivity | assumption].
+    + cbn [app ac_get]. destruct (acar_id y =? r); [reflexivity | assumption].
 Qed.
 
 Lemma ac_get_app_notin : forall r rs,
-  ~ In r (map ar_id rs) -> ac_get r (rs ++ [mk_ar r []]) = Some (mk_ar r []).
+  ~ In r (map acar_id rs) -> ac_get r (rs ++ [ac_mk_ar r []]) = Some (ac_mk_ar r []).
 Proof.
-  intros r. induction rs as [|z rs IH]; intro Hn; cbn [app ac_get ar_id].
+  intros r. induction rs as [|z rs IH]; intro Hn; cbn [app ac_get acar_id].
   - rewrite Z.eqb_refl. reflexivity.
-  - cbn [map] in Hn. destruct (ar_id z =? r) eqn:E2.
+  - cbn [map] in Hn. destruct (acar_id z =? r) eqn:E2.
     + exfalso. apply Hn. left. apply Z.eqb_eq. assumption.
     + apply IH. intro Hin. apply Hn. right. assumption.
 Qed.
 
 Lemma ac_get_drop_same : forall r rs,
-  NoDup (map ar_id rs) -> ac_get r (ac_drop r rs ++ [mk_ar r []]) = Some (mk_ar r []).
+  NoDup (map acar_id rs) -> ac_get r (ac_drop r rs ++ [ac_mk_ar r []]) = Some (ac_mk_ar r []).
 Proof.
-  intros r. induction rs as [|y rs IH]; intro H; cbn [ac_drop app ac_get ar_id].
+  intros r. induction rs as [|y rs IH]; intro H; cbn [ac_drop app ac_get acar_id].
   - rewrite Z.eqb_refl. reflexivity.
-  - inversion H as [|? ? Hn Hd]; subst. destruct (ar_id y =? r) eqn:E1.
+  - inversion H as [|? ? Hn Hd]; subst. destruct (acar_id y =? r) eqn:E1.
     + apply Z.eqb_eq in E1. subst r. apply ac_get_app_notin. assumption.
     + cbn [app ac_get]. rewrite E1. apply IH. assumption.
 Qed.
 
-Lemma ac_drop_ids : forall r rs, NoDup (map ar_id rs) -> ac_get r rs <> None ->
-  NoDup (map ar_id (ac_drop r rs ++ [mk_ar r []])).
+Lemma ac_drop_ids : forall r rs, NoDup (map acar_id rs) -> ac_get r rs <> None ->
+  NoDup (map acar_id (ac_drop r rs ++ [ac_mk_ar r []])).
 Proof.
   intros r. induction rs as [|y rs IH]; intros H G; cbn [ac_get] in G; [congruence|].
-  cbn [ac_drop]. inversion H as [|? ? Hn Hd]; subst. destruct (ar_id y =? r) eqn:E1.
-  - apply Z.eqb_eq in E1. subst r. rewrite map_app. cbn [map ar_id].
-    clear IH G. revert Hn Hd. generalize (map ar_id rs) as l. generalize (ar_id y) as z.
+  cbn [ac_drop]. inversion H as [|? ? Hn Hd]; subst. destruct (acar_id y =? r) eqn:E1.
+  - apply Z.eqb_eq in E1. subst r. rewrite map_app. cbn [map acar_id].
+    clear IH G. revert Hn Hd. generalize (map acar_id rs) as l. generalize (acar_id y) as z.
     induction l as [|h l IH]; intros Hn Hd; cbn [app].
     + constructor; [intros [] | constructor].
     + inversion Hd; subst. constructor.
@@ -617,10 +617,10 @@ Proof.
         apply Hn. left. reflexivity.
       * apply IH; [intro Hz; apply Hn; right; assumption | assumption].
   - cbn [app map]. constructor; [|apply IH; assumption].
-    intro Hin. rewrite map_app in Hin. apply in_app_iff in Hin. cbn [map ar_id] in Hin.
+    intro Hin. rewrite map_app in Hin. apply in_app_iff in Hin. cbn [map acar_id] in Hin.
     destruct Hin as [Hin|[Hin|[]]].
     + apply Hn. clear - Hin. induction rs as [|z rs IH]; cbn [ac_drop map] in *; [destruct Hin|].
-      destruct (ar_id z =? r); [right; assumption|]. cbn [map] in Hin.
+      destruct (acar_id z =? r); [right; assumption|]. cbn [map] in Hin.
       destruct Hin as [<-|Hin]; [left; reflexivity | right; apply IH; assumption].
     + apply Z.eqb_neq in E1. congruence.
 Qed.
@@ -628,48 +628,48 @@ Qed.
 Lemma ac_drop_forall : forall (P : ac_res -> Prop) r rs, Forall P rs -> Forall P (ac_drop r rs).
 Proof.
   intros P r. induction rs as [|y rs IH]; intro H; cbn [ac_drop]; [constructor|].
-  inversion H; subst. destruct (ar_id y =? r); [assumption | constructor; auto].
+  inversion H; subst. destruct (acar_id y =? r); [assumption | constructor; auto].
 Qed.
 
 (* ------------------------------------------------------------------ one entry of the history *)
 
 Definition ac_is_change (op : ob_op) (r : Z) : bool :=
-  match op with OpChange r' => r' =? r | _ => false end.
+  match op with ObOpChange r' => r' =? r | _ => false end.
 
 Definition ac_msg_free (op : ob_op) (outs : list ob_out) (r s : Z) (t : ob_tok) : Prop :=
   ac_no_notify r s t outs /\
-  (forall o v, (op, outs) <> (OpRegister r s t o, [ORegResp r s t (Some v)])).
+  (forall o v, (op, outs) <> (ObOpRegister r s t o, [ObRegResp r s t (Some v)])).
 
 Definition ac_refreshed (o : ac_obs) (v : Z) : ac_obs :=
-  mk_ao (ao_s o) (ao_t o) (ao_key o) v 0 true (ao_run o) (ao_lastk o) (ao_since o).
+  ac_mk_ao (acao_s o) (acao_t o) (acao_key o) v 0 true (acao_run o) (acao_lastk o) (acao_since o).
 
 Lemma ac_quiet_inv : forall outs st st', ac_quiet outs st = AcOk st' -> outs = [] /\ st' = st.
 Proof. intros outs st st' H. destruct outs; cbn in H; [inversion H; auto | discriminate]. Qed.
 
 Lemma ac_upd_wf_at : forall r f rs res,
-  ac_wf rs -> ac_get r rs = Some res -> NoDup (map ac_kt (f (ar_obs res))) -> ac_wf (ac_upd r f rs).
+  ac_wf rs -> ac_get r rs = Some res -> NoDup (map ac_kt (f (acar_obs res))) -> ac_wf (ac_upd r f rs).
 Proof.
   intros r f rs res [A B] G Hf. split; [rewrite ac_upd_ids; assumption|]. clear A.
   revert G. induction rs as [|y rs IH]; intro G; cbn [ac_upd]; [constructor|].
-  inversion B; subst. cbn [ac_get] in G. destruct (ar_id y =? r).
+  inversion B; subst. cbn [ac_get] in G. destruct (acar_id y =? r).
   - inversion G; subst y. constructor; [exact Hf | assumption].
   - constructor; [assumption | apply IH; assumption].
 Qed.
 
 Lemma ac_step_wf : forall c st e st',
-  ac_wf (as_res st) -> ac_step c st e = AcOk st' -> ac_wf (as_res st').
+  ac_wf (acas_res st) -> ac_step c st e = AcOk st' -> ac_wf (acas_res st').
 Proof.
   intros c st [op outs] st' Hwf H. destruct op; cbn [ac_step] in H.
   - (* register *)
-    unfold ac_register in H. destruct (ac_get r (as_res st)) as [res|] eqn:G.
+    unfold ac_register in H. destruct (ac_get r (acas_res st)) as [res|] eqn:G.
     2:{ destruct outs; [inversion H; subst; assumption | discriminate]. }
     destruct outs as [|o1 [|o2 outs]]; [discriminate | | destruct o1; discriminate].
     destruct o1; try discriminate.
     destruct ((r0 =? r) && (s0 =? s) && ob_bytes_eqb t0 t); [|discriminate].
     pose proof (ac_wf_get _ _ _ Hwf G) as Hnd.
-    destruct (ob_find (ac_obs_is s t) (ar_obs res)) as [o1|] eqn:F.
+    destruct (ob_find (ac_obs_is s t) (acar_obs res)) as [o1|] eqn:F.
     + destruct v as [v0|].
-      * destruct (v0 =? (ao_val o1 + ao_chg o1) mod ob_M); [|discriminate]. inversion H; subst st'.
+      * destruct (v0 =? (acao_val o1 + acao_chg o1) mod ob_M); [|discriminate]. inversion H; subst st'.
         cbn. apply ac_upd_wf; [|assumption]. intros l Hl. apply nodup_map_keep; [|assumption].
         intro x. unfold ac_refresh. destruct (ac_obs_is s t x); reflexivity.
       * inversion H; subst st'. cbn. apply ac_upd_wf; [|assumption]. intros l Hl. apply nodup_del. assumption.
@@ -678,7 +678,7 @@ Proof.
         eapply ac_upd_wf_at; [assumption | eassumption|]. cbn [map].
         constructor; [|apply nodup_replace_key; assumption].
         intro Hin. apply in_map_iff in Hin. destruct Hin as [z [Hz Hin]].
-        destruct (ob_find (ac_obs_is s t) (ac_replace_key s (ob_key o) (ar_obs res))) as [q|] eqn:Fq.
+        destruct (ob_find (ac_obs_is s t) (ac_replace_key s (ob_key o) (acar_obs res))) as [q|] eqn:Fq.
         -- rewrite (ac_replace_key_sub _ _ _ _ _ _ Fq Hnd) in F. discriminate.
         -- pose proof (ob_find_none _ _ Fq z Hin) as Hf.
            assert (ac_obs_is s t z = true) by (apply ac_obs_is_kt; exact Hz). congruence.
@@ -689,70 +689,70 @@ Proof.
   - apply ac_quiet_inv in H. destruct H as [_ ->]. cbn. apply ac_upd_wf; [|assumption].
     intros l Hl. apply nodup_map_keep; [intro; reflexivity | assumption].
   - unfold ac_iostep in H.
-    destruct (ac_outs c (mk_aw (as_res st) (as_fl st) (as_nk st) (as_sent st) ca) outs) as [w|] eqn:E;
+    destruct (ac_outs c (ac_mk_aw (acas_res st) (acas_fl st) (acas_nk st) (acas_sent st) ca) outs) as [w|] eqn:E;
       [|discriminate].
-    destruct (ac_all_settled c (aw_cnt w) (aw_res w)); [|discriminate]. inversion H; subst st'. cbn.
+    destruct (ac_all_settled c (acaw_cnt w) (acaw_res w)); [|discriminate]. inversion H; subst st'. cbn.
     eapply outs_wf; [eassumption | assumption].
   - apply ac_quiet_inv in H. destruct H as [_ ->]. assumption.
   - apply ac_quiet_inv in H. destruct H as [_ ->]. unfold ac_rst.
-    set (st1 := match ob_fl_find s k (as_fl st) with
+    set (st1 := match ob_fl_find s k (acas_fl st) with
                 | Some f => _ | None => _ end).
-    assert (W1 : ac_wf (as_res st1)).
-    { subst st1. destruct (ob_fl_find s k (as_fl st)) as [f|]; cbn.
+    assert (W1 : ac_wf (acas_res st1)).
+    { subst st1. destruct (ob_fl_find s k (acas_fl st)) as [f|]; cbn.
       - apply ac_map_wf; [|assumption]. intros l Hl. apply nodup_del. assumption.
       - apply ac_rst_by_last_shrinks. assumption. }
-    destruct (cf_strict c); [|assumption]. cbn. unfold ac_rst_strict.
-    destruct (ac_sent_find k (as_sent st)) as [n|]; [|assumption].
-    destruct (sn_s n =? s); [|assumption]. apply ac_upd_wf; [|assumption].
-    intros l Hl. destruct (ob_find (ac_obs_is s (sn_t n)) l) as [o|]; [|assumption].
-    destruct (ao_since o <=? k); [apply nodup_del|]; assumption.
+    destruct (accf_strict c); [|assumption]. cbn. unfold ac_rst_strict.
+    destruct (ac_sent_find k (acas_sent st)) as [n|]; [|assumption].
+    destruct (acsn_s n =? s); [|assumption]. apply ac_upd_wf; [|assumption].
+    intros l Hl. destruct (ob_find (ac_obs_is s (acsn_t n)) l) as [o|]; [|assumption].
+    destruct (acao_since o <=? k); [apply nodup_del|]; assumption.
   - apply ac_quiet_inv in H. destruct H as [_ ->]. unfold ac_confailed.
-    destruct (ob_fl_find s k (as_fl st)) as [f|]; [|assumption]. cbn.
+    destruct (ob_fl_find s k (acas_fl st)) as [f|]; [|assumption]. cbn.
     apply ac_map_wf; [|assumption]. intros l Hl. apply nodup_del. assumption.
   - apply ac_quiet_inv in H. destruct H as [_ ->]. assumption.
   - apply ac_quiet_inv in H. destruct H as [_ ->]. unfold ac_lost. cbn.
     apply ac_map_wf; [|assumption]. intros l Hl. apply nodup_filter. assumption.
-  - unfold ac_delete in H. destruct (ac_get r (as_res st)) as [res|] eqn:G.
+  - unfold ac_delete in H. destruct (ac_get r (acas_res st)) as [res|] eqn:G.
     2:{ destruct outs; [inversion H; subst; assumption | discriminate]. }
-    destruct (ac_gone_ok r (ar_obs res) outs); [|discriminate]. inversion H; subst st'. cbn.
+    destruct (ac_gone_ok r (acar_obs res) outs); [|discriminate]. inversion H; subst st'. cbn.
     destruct Hwf as [A B]. split; [apply ac_drop_ids; [assumption | congruence]|].
     apply Forall_app. split; [apply ac_drop_forall; assumption|].
     constructor; [unfold ac_res_wf; cbn; constructor | constructor].
 Qed.
 
 Lemma find_cons_new : forall s t s0 t0 key v nk l,
-  ob_find (ac_obs_is s t) (mk_ao s0 t0 key v 0 true 0 (-1) nk :: l) =
-  if ac_obs_is s t (mk_ao s0 t0 key v 0 true 0 (-1) nk)
-  then Some (mk_ao s0 t0 key v 0 true 0 (-1) nk) else ob_find (ac_obs_is s t) l.
+  ob_find (ac_obs_is s t) (ac_mk_ao s0 t0 key v 0 true 0 (-1) nk :: l) =
+  if ac_obs_is s t (ac_mk_ao s0 t0 key v 0 true 0 (-1) nk)
+  then Some (ac_mk_ao s0 t0 key v 0 true 0 (-1) nk) else ob_find (ac_obs_is s t) l.
 Proof. reflexivity. Qed.
 
 (* what one accepted entry of the history does to one observer that is registered afterwards *)
 Lemma ac_step_entry : forall c st op outs st' r s t o',
-  ac_wf (as_res st) -> ac_step c st (op, outs) = AcOk st' -> ac_entry st' r s t = Some o' ->
+  ac_wf (acas_res st) -> ac_step c st (op, outs) = AcOk st' -> ac_entry st' r s t = Some o' ->
   (* it was there and nothing was said to it *)
   (exists o, ac_entry st r s t = Some o /\ ac_msg_free op outs r s t /\
              o' = if ac_is_change op r then ac_bump o else o) \/
   (* it was notified (exactly once) *)
   (exists o ca k v con,
-     op = OpIoStep ca /\ ac_entry st r s t = Some o /\ In (ONotify k r s t v con) outs /\
-     v = ac_cur o /\ (1 <= ao_chg o \/ ao_weak o = true) /\
-     (ac_mode c r <> 2 -> (if con then 0 else ao_run o + 1) <= cf_max_non c) /\
-     (forall k' v' con', In (ONotify k' r s t v' con') outs -> k' = k /\ v' = v /\ con' = con) /\
+     op = ObOpIoStep ca /\ ac_entry st r s t = Some o /\ In (ObNotify k r s t v con) outs /\
+     v = ac_cur o /\ (1 <= acao_chg o \/ acao_weak o = true) /\
+     (ac_mode c r <> 2 -> (if con then 0 else acao_run o + 1) <= accf_max_non c) /\
+     (forall k' v' con', In (ObNotify k' r s t v' con') outs -> k' = k /\ v' = v /\ con' = con) /\
      o' = ac_after_notify o v con k) \/
   (* its registration was refreshed (same token) *)
   (exists o opts v,
-     op = OpRegister r s t opts /\ outs = [ORegResp r s t (Some v)] /\
+     op = ObOpRegister r s t opts /\ outs = [ObRegResp r s t (Some v)] /\
      ac_entry st r s t = Some o /\ v = ac_cur o /\ o' = ac_refreshed o v) \/
   (* it was created *)
   (exists opts v,
-     op = OpRegister r s t opts /\ outs = [ORegResp r s t (Some v)] /\
+     op = ObOpRegister r s t opts /\ outs = [ObRegResp r s t (Some v)] /\
      ac_entry st r s t = None /\ 0 <= v < ob_M /\
-     o' = mk_ao s t (ob_key opts) v 0 true 0 (-1) (as_nk st)).
+     o' = ac_mk_ao s t (ob_key opts) v 0 true 0 (-1) (acas_nk st)).
 Proof.
   intros c st op outs st' r s t o' Hwf H He.
   (* removal-only ops: the entry is the old one *)
-  assert (Hshrink : forall rs', as_res st' = rs' -> ac_shrinks (as_res st) rs' ->
-            outs = [] -> ac_is_change op r = false -> (forall o, op <> OpRegister r s t o) ->
+  assert (Hshrink : forall rs', acas_res st' = rs' -> ac_shrinks (acas_res st) rs' ->
+            outs = [] -> ac_is_change op r = false -> (forall o, op <> ObOpRegister r s t o) ->
             exists o, ac_entry st r s t = Some o /\ ac_msg_free op [] r s t /\
                       o' = if ac_is_change op r then ac_bump o else o).
   { intros rs' E Hs Ho Hc Hr. exists o'. unfold ac_entry in *. rewrite E in He.
@@ -760,7 +760,7 @@ Proof.
     split; [intros k v con [] | intros o v Heq; inversion Heq; subst; eapply Hr; reflexivity]. }
   destruct op; cbn [ac_step] in H.
   - (* register *)
-    unfold ac_register in H. destruct (ac_get r0 (as_res st)) as [res|] eqn:G.
+    unfold ac_register in H. destruct (ac_get r0 (acas_res st)) as [res|] eqn:G.
     { destruct outs as [|o1 [|o2 outs]]; [discriminate | | destruct o1; discriminate].
       destruct o1; try discriminate.
       destruct ((r1 =? r0) && (s1 =? s0) && ob_bytes_eqb t1 t0) eqn:Eid; [|discriminate].
@@ -768,19 +768,19 @@ Proof.
       destruct Eid as [E1 E2]. apply Z.eqb_eq in E1, E2. apply ob_bytes_eqb_eq in E3. subst r1 s1 t1.
       pose proof (ac_wf_get _ _ _ Hwf G) as Hnd.
       assert (Hfree : (r0, s0, t0) <> (r, s, t) -> forall v0,
-                ac_msg_free (OpRegister r0 s0 t0 o) [ORegResp r0 s0 t0 v0] r s t).
+                ac_msg_free (ObOpRegister r0 s0 t0 o) [ObRegResp r0 s0 t0 v0] r s t).
       { intros Hne v0. split.
         - intros k v' con [Heq|[]]. discriminate.
         - intros o1 v1 Heq. inversion Heq; subst. apply Hne. reflexivity. }
-      destruct (ob_find (ac_obs_is s0 t0) (ar_obs res)) as [o1|] eqn:F.
+      destruct (ob_find (ac_obs_is s0 t0) (acar_obs res)) as [o1|] eqn:F.
       - destruct v as [v0|].
-        + destruct (v0 =? (ao_val o1 + ao_chg o1) mod ob_M) eqn:Ev; [|discriminate].
-          apply Z.eqb_eq in Ev. inversion H; subst st'. unfold ac_entry in *. cbn [as_res ac_set_res] in He.
+        + destruct (v0 =? (acao_val o1 + acao_chg o1) mod ob_M) eqn:Ev; [|discriminate].
+          apply Z.eqb_eq in Ev. inversion H; subst st'. unfold ac_entry in *. cbn [acas_res ac_set_res] in He.
           rewrite ac_find_upd in He. destruct (r =? r0) eqn:Er.
           * apply Z.eqb_eq in Er. subst r0. rewrite G in He.
             rewrite find_map_keep in He
               by (intro x; unfold ac_refresh; destruct (ac_obs_is s0 t0 x); reflexivity).
-            destruct (ob_find (ac_obs_is s t) (ar_obs res)) as [q|] eqn:Fq; [|discriminate].
+            destruct (ob_find (ac_obs_is s t) (acar_obs res)) as [q|] eqn:Fq; [|discriminate].
             cbn [option_map] in He. inversion He as [Hq]. unfold ac_refresh.
             destruct (ac_obs_is s0 t0 q) eqn:Eq.
             -- (* the refreshed one is ours *)
@@ -793,7 +793,7 @@ Proof.
                pose proof (ob_find_some _ _ _ Fq) as [_ Fq2]. congruence.
           * left. exists o'. split; [assumption|]. split; [|reflexivity]. apply Hfree.
             intro Heq. inversion Heq; subst. rewrite Z.eqb_refl in Er. discriminate.
-        + inversion H; subst st'. unfold ac_entry in *. cbn [as_res ac_set_res] in He.
+        + inversion H; subst st'. unfold ac_entry in *. cbn [acas_res ac_set_res] in He.
           rewrite ac_find_upd in He. destruct (r =? r0) eqn:Er.
           * apply Z.eqb_eq in Er. subst r0. rewrite G in He.
             destruct (find_del_sub _ _ _ _ _ _ He Hnd) as [Fq Hne]. left. exists o'. unfold ac_find.
@@ -803,10 +803,10 @@ Proof.
             intro Heq. inversion Heq; subst. rewrite Z.eqb_refl in Er. discriminate.
       - destruct v as [v0|].
         + destruct ((0 <=? v0) && (v0 <? ob_M)) eqn:Erange; [|discriminate].
-          inversion H; subst st'. unfold ac_entry in *. cbn [as_res ac_set_res] in He.
+          inversion H; subst st'. unfold ac_entry in *. cbn [acas_res ac_set_res] in He.
           rewrite ac_find_upd in He. destruct (r =? r0) eqn:Er.
           * apply Z.eqb_eq in Er. subst r0. rewrite G in He. rewrite find_cons_new in He.
-            destruct (ac_obs_is s t (mk_ao s0 t0 (ob_key o) v0 0 true 0 (-1) (as_nk st))) eqn:Eq.
+            destruct (ac_obs_is s t (ac_mk_ao s0 t0 (ob_key o) v0 0 true 0 (-1) (acas_nk st))) eqn:Eq.
             -- apply ac_obs_is_kt in Eq. unfold ac_kt in Eq. cbn in Eq. inversion Eq; subst s0 t0.
                inversion He; subst o'. right. right. right. exists o, v0. unfold ac_find. rewrite G.
                apply andb_true_iff in Erange. destruct Erange as [R1 R2].
@@ -816,7 +816,7 @@ Proof.
                intro Heq. inversion Heq; subst. apply ac_obs_is_false in Eq. apply Eq. reflexivity.
           * left. exists o'. split; [assumption|]. split; [|reflexivity]. apply Hfree.
             intro Heq. inversion Heq; subst. rewrite Z.eqb_refl in Er. discriminate.
-        + inversion H; subst st'. unfold ac_entry in *. cbn [as_res ac_set_res] in He.
+        + inversion H; subst st'. unfold ac_entry in *. cbn [acas_res ac_set_res] in He.
           rewrite ac_find_upd in He. destruct (r =? r0) eqn:Er.
           * apply Z.eqb_eq in Er. subst r0. rewrite G in He.
             pose proof (ac_replace_key_sub _ _ _ _ _ _ He Hnd) as Fq. left. exists o'.
@@ -829,16 +829,16 @@ Proof.
     split; [intros k v con [] | intros o1 v1 Heq; discriminate].
   - (* cancel *)
     apply ac_quiet_inv in H. destruct H as [-> ->]. left.
-    apply (Hshrink _ eq_refl); try reflexivity; [|intros; discriminate]. cbn [as_res ac_set_res].
+    apply (Hshrink _ eq_refl); try reflexivity; [|intros; discriminate]. cbn [acas_res ac_set_res].
     apply ac_upd_shrinks; [assumption|]. intros l Hl.
     split; [apply nodup_cancel_obs; assumption|]. intros s1 t1 q Hq. eapply ac_cancel_obs_sub; eassumption.
   - (* change *)
     apply ac_quiet_inv in H. destruct H as [-> ->]. left. unfold ac_entry in *.
-    cbn [as_res ac_set_res] in He. rewrite ac_find_upd in He. cbn [ac_is_change].
+    cbn [acas_res ac_set_res] in He. rewrite ac_find_upd in He. cbn [ac_is_change].
     rewrite (Z.eqb_sym r0 r). destruct (r =? r0) eqn:Er.
-    + destruct (ac_get r (as_res st)) as [y|] eqn:G; [|discriminate].
+    + destruct (ac_get r (acas_res st)) as [y|] eqn:G; [|discriminate].
       rewrite find_map_keep in He by (intro; reflexivity).
-      destruct (ob_find (ac_obs_is s t) (ar_obs y)) as [q|] eqn:Fq; [|discriminate].
+      destruct (ob_find (ac_obs_is s t) (acar_obs y)) as [q|] eqn:Fq; [|discriminate].
       cbn [option_map] in He. inversion He; subst o'. exists q. unfold ac_find. rewrite G.
       split; [assumption|]. split; [|reflexivity].
       split; [intros k v con [] | intros o1 v1 Heq; discriminate].
@@ -846,11 +846,11 @@ Proof.
       split; [intros k v con [] | intros o1 v1 Heq; discriminate].
   - (* I/O step *)
     unfold ac_iostep in H.
-    destruct (ac_outs c (mk_aw (as_res st) (as_fl st) (as_nk st) (as_sent st) ca) outs) as [w|] eqn:E;
+    destruct (ac_outs c (ac_mk_aw (acas_res st) (acas_fl st) (acas_nk st) (acas_sent st) ca) outs) as [w|] eqn:E;
       [|discriminate].
-    destruct (ac_all_settled c (aw_cnt w) (aw_res w)); [|discriminate]. inversion H; subst st'.
-    unfold ac_entry in *. cbn [as_res] in He.
-    destruct (ac_find (as_res st) r s t) as [q|] eqn:Fq.
+    destruct (ac_all_settled c (acaw_cnt w) (acaw_res w)); [|discriminate]. inversion H; subst st'.
+    unfold ac_entry in *. cbn [acas_res] in He.
+    destruct (ac_find (acas_res st) r s t) as [q|] eqn:Fq.
     + destruct (outs_entry c r s t outs _ w q E Hwf Fq)
         as [[I1 I2]|[k [v [con [I1 [I2 [I3 [I4 [I5 I6]]]]]]]]].
       * left. exists q. split; [reflexivity|]. cbn [ac_is_change].
@@ -866,36 +866,36 @@ Proof.
   - (* rst *)
     apply ac_quiet_inv in H. destruct H as [-> ->]. left.
     apply (Hshrink _ eq_refl); try reflexivity; [|intros; discriminate]. unfold ac_rst.
-    set (st1 := match ob_fl_find s0 k (as_fl st) with
+    set (st1 := match ob_fl_find s0 k (acas_fl st) with
                 | Some f => _ | None => _ end).
-    assert (W1 : ac_wf (as_res st1) /\ ac_shrinks (as_res st) (as_res st1)).
-    { subst st1. destruct (ob_fl_find s0 k (as_fl st)) as [f|]; cbn.
+    assert (W1 : ac_wf (acas_res st1) /\ ac_shrinks (acas_res st) (acas_res st1)).
+    { subst st1. destruct (ob_fl_find s0 k (acas_fl st)) as [f|]; cbn.
       - apply ac_map_shrinks; [assumption|]. intros l Hl. apply del_shrinks_list. assumption.
       - apply ac_rst_by_last_shrinks. assumption. }
-    destruct W1 as [W1 W2]. destruct (cf_strict c); [|assumption]. cbn [as_res ac_set_res].
-    unfold ac_rst_strict. destruct (ac_sent_find k (as_sent st)) as [n|]; [|assumption].
-    destruct (sn_s n =? s0); [|assumption].
+    destruct W1 as [W1 W2]. destruct (accf_strict c); [|assumption]. cbn [acas_res ac_set_res].
+    unfold ac_rst_strict. destruct (ac_sent_find k (acas_sent st)) as [n|]; [|assumption].
+    destruct (acsn_s n =? s0); [|assumption].
     intros r1 s1 t1 q Hq. apply W2. revert r1 s1 t1 q Hq.
     apply ac_upd_shrinks; [assumption|]. intros l Hl.
-    destruct (ob_find (ac_obs_is s0 (sn_t n)) l) as [o1|]; [|auto].
-    destruct (ao_since o1 <=? k); [apply del_shrinks_list; assumption | auto].
+    destruct (ob_find (ac_obs_is s0 (acsn_t n)) l) as [o1|]; [|auto].
+    destruct (acao_since o1 <=? k); [apply del_shrinks_list; assumption | auto].
   - (* give-up *)
     apply ac_quiet_inv in H. destruct H as [-> ->]. left.
     apply (Hshrink _ eq_refl); try reflexivity; [|intros; discriminate]. unfold ac_confailed.
-    destruct (ob_fl_find s0 k (as_fl st)) as [f|]; [|intros r1 s1 t1 q Hq; exact Hq]. cbn [as_res].
+    destruct (ob_fl_find s0 k (acas_fl st)) as [f|]; [|intros r1 s1 t1 q Hq; exact Hq]. cbn [acas_res].
     apply ac_map_shrinks; [assumption|]. intros l Hl. apply del_shrinks_list. assumption.
   - apply ac_quiet_inv in H. destruct H as [-> ->]. left.
     apply (Hshrink _ eq_refl); try reflexivity; [|intros; discriminate].
     intros r1 s1 t1 q Hq. exact Hq.
   - (* session lost *)
     apply ac_quiet_inv in H. destruct H as [-> ->]. left.
-    apply (Hshrink _ eq_refl); try reflexivity; [|intros; discriminate]. unfold ac_lost. cbn [as_res].
+    apply (Hshrink _ eq_refl); try reflexivity; [|intros; discriminate]. unfold ac_lost. cbn [acas_res].
     apply ac_map_shrinks; [assumption|]. intros l Hl. split; [apply nodup_filter; assumption|].
     intros s1 t1 q Hq. rewrite find_filter_sess in Hq. destruct (s1 =? s0); [discriminate | assumption].
   - (* resource deleted *)
-    unfold ac_delete in H. destruct (ac_get r0 (as_res st)) as [res|] eqn:G.
-    + destruct (ac_gone_ok r0 (ar_obs res) outs) eqn:GO; [|discriminate]. inversion H; subst st'.
-      unfold ac_entry in *. cbn [as_res ac_set_res] in He. unfold ac_find in He.
+    unfold ac_delete in H. destruct (ac_get r0 (acas_res st)) as [res|] eqn:G.
+    + destruct (ac_gone_ok r0 (acar_obs res) outs) eqn:GO; [|discriminate]. inversion H; subst st'.
+      unfold ac_entry in *. cbn [acas_res ac_set_res] in He. unfold ac_find in He.
       destruct (Z.eq_dec r r0) as [->|Hne].
       * rewrite ac_get_drop_same in He by apply Hwf. cbn in He. discriminate.
       * rewrite ac_get_drop_other in He by assumption. left. exists o'. split; [exact He|].
@@ -931,7 +931,7 @@ Proof.
   destruct (ac_step c st e); [apply IH | reflexivity].
 Qed.
 
-Lemma ac_go_wf : forall c tr st st', ac_wf (as_res st) -> ac_go c st tr = Some st' -> ac_wf (as_res st').
+Lemma ac_go_wf : forall c tr st st', ac_wf (acas_res st) -> ac_go c st tr = Some st' -> ac_wf (acas_res st').
 Proof.
   intros c. induction tr as [|e tl IH]; intros st st' Hwf H; cbn [ac_go] in H.
   - inversion H; subst. assumption.
@@ -939,18 +939,18 @@ Proof.
     eapply IH; [|eassumption]. eapply ac_step_wf; eassumption.
 Qed.
 
-Lemma ac_init_res_ids : forall modes id y, In y (ac_init_res id modes) -> id <= ar_id y /\ ar_obs y = [].
+Lemma ac_init_res_ids : forall modes id y, In y (ac_init_res id modes) -> id <= acar_id y /\ acar_obs y = [].
 Proof.
   induction modes as [|m tl IH]; cbn [ac_init_res]; intros id y H; [destruct H|].
   destruct H as [<-|H]; [cbn; split; [lia | reflexivity]|]. apply IH in H. destruct H. split; [lia | assumption].
 Qed.
 
-Lemma ac_init_wf : forall c, ac_wf (as_res (ac_init c)).
+Lemma ac_init_wf : forall c, ac_wf (acas_res (ac_init c)).
 Proof.
-  intro c. unfold ac_init. cbn [as_res]. generalize 0 as id. generalize (cf_modes c) as modes.
+  intro c. unfold ac_init. cbn [acas_res]. generalize 0 as id. generalize (accf_modes c) as modes.
   induction modes as [|m tl IH]; intro id; cbn [ac_init_res].
   - split; constructor.
-  - destruct (IH (id + 1)) as [A B]. split; cbn [map ar_id].
+  - destruct (IH (id + 1)) as [A B]. split; cbn [map acar_id].
     + constructor; [|assumption]. intro H. apply in_map_iff in H. destruct H as [y [Hy Hin]].
       apply ac_init_res_ids in Hin. lia.
     + constructor; [unfold ac_res_wf; cbn; constructor | assumption].
@@ -959,7 +959,7 @@ Qed.
 (* ------------------------------------------------------------------ C11: nothing after de-registration *)
 
 Definition ac_registers (e : ob_op * list ob_out) (r s : Z) (t : ob_tok) : Prop :=
-  exists o v, e = (OpRegister r s t o, [ORegResp r s t (Some v)]).
+  exists o v, e = (ObOpRegister r s t o, [ObRegResp r s t (Some v)]).
 
 (* whatever an accepted entry sends to (r, s, t) - notification, error response, 4.04 - goes to
    an observer that was registered before that entry *)
@@ -969,29 +969,29 @@ Lemma ac_step_out_registered : forall c st op outs st' out r s t,
 Proof.
   intros c st op outs st' out r s t H Hin Hk. destruct op; cbn [ac_step] in H;
     try (apply ac_quiet_inv in H; destruct H as [-> _]; destruct Hin).
-  - unfold ac_register in H. destruct (ac_get r0 (as_res st)).
+  - unfold ac_register in H. destruct (ac_get r0 (acas_res st)).
     + destruct outs as [|o1 [|o2 outs]]; [discriminate | | destruct o1; discriminate].
       destruct o1; try discriminate. destruct Hin as [<-|[]]. discriminate.
     + destruct outs; [destruct Hin | discriminate].
   - unfold ac_iostep in H.
-    destruct (ac_outs c (mk_aw (as_res st) (as_fl st) (as_nk st) (as_sent st) ca) outs) as [w|] eqn:E;
+    destruct (ac_outs c (ac_mk_aw (acas_res st) (acas_fl st) (acas_nk st) (acas_sent st) ca) outs) as [w|] eqn:E;
       [|discriminate].
     exact (outs_registered c r s t outs _ w out E Hin Hk).
-  - unfold ac_delete in H. destruct (ac_get r0 (as_res st)) as [res|] eqn:G.
-    + destruct (ac_gone_ok r0 (ar_obs res) outs) eqn:GO; [|discriminate].
+  - unfold ac_delete in H. destruct (ac_get r0 (acas_res st)) as [res|] eqn:G.
+    + destruct (ac_gone_ok r0 (acar_obs res) outs) eqn:GO; [|discriminate].
       clear H. revert GO Hin. induction outs as [|o0 outs IH]; intros GO Hin; [destruct Hin|].
       cbn [ac_gone_ok] in GO. destruct o0; try discriminate.
       apply andb_true_iff in GO. destruct GO as [GO1 GO2]. apply andb_true_iff in GO1.
       destruct GO1 as [Er Ef]. destruct Hin as [<-|Hin]; [|apply IH; assumption].
       cbn in Hk. inversion Hk; subst. apply Z.eqb_eq in Er. subst r0.
-      unfold ac_entry, ac_find. rewrite G. destruct (ob_find (ac_obs_is s t) (ar_obs res)) as [q|];
+      unfold ac_entry, ac_find. rewrite G. destruct (ob_find (ac_obs_is s t) (acar_obs res)) as [q|];
         [exists q; reflexivity | discriminate].
     + destruct outs; [destruct Hin | discriminate].
 Qed.
 
 (* an observer appears only through an accepted registration *)
 Lemma ac_step_adds : forall c st op outs st' r s t,
-  ac_wf (as_res st) -> ac_step c st (op, outs) = AcOk st' ->
+  ac_wf (acas_res st) -> ac_step c st (op, outs) = AcOk st' ->
   ac_reg st r s t = false -> ac_reg st' r s t = true -> ac_registers (op, outs) r s t.
 Proof.
   intros c st op outs st' r s t Hwf H H0 H1. unfold ac_reg in *.
@@ -1005,7 +1005,7 @@ Qed.
 
 (* C11: after (r, s, t) is not registered, nothing is sent to it until it registers again *)
 Theorem ac_none_while_unregistered : forall c r s t tr st st',
-  ac_wf (as_res st) -> ac_go c st tr = Some st' -> ac_reg st r s t = false ->
+  ac_wf (acas_res st) -> ac_go c st tr = Some st' -> ac_reg st r s t = false ->
   (forall e, In e tr -> ~ ac_registers e r s t) ->
   (forall e out, In e tr -> In out (snd e) -> ac_out_key out <> Some (r, s, t)) /\
   ac_reg st' r s t = false.
@@ -1029,41 +1029,41 @@ Proof. intros st r s t H. unfold ac_reg. rewrite H. reflexivity. Qed.
 
 (* Observe:1 with the token of the registration *)
 Lemma ac_dereg_cancel : forall c st r s t o outs st',
-  ac_wf (as_res st) -> ac_step c st (OpCancel r s t o, outs) = AcOk st' -> ac_reg st' r s t = false.
+  ac_wf (acas_res st) -> ac_step c st (ObOpCancel r s t o, outs) = AcOk st' -> ac_reg st' r s t = false.
 Proof.
   intros c st r s t o outs st' Hwf H. cbn [ac_step] in H. apply ac_quiet_inv in H. destruct H as [_ ->].
-  apply ac_reg_false. unfold ac_entry. cbn [as_res ac_set_res]. rewrite ac_find_upd, Z.eqb_refl.
-  destruct (ac_get r (as_res st)) as [y|] eqn:G; [|reflexivity].
+  apply ac_reg_false. unfold ac_entry. cbn [acas_res ac_set_res]. rewrite ac_find_upd, Z.eqb_refl.
+  destruct (ac_get r (acas_res st)) as [y|] eqn:G; [|reflexivity].
   pose proof (ac_wf_get _ _ _ Hwf G) as Hnd. unfold ac_cancel_obs.
-  destruct (ob_find (ac_obs_is s t) (ar_obs y)) as [q|] eqn:F; [apply find_del_same; assumption|].
-  destruct (ob_find (ac_obs_is s t) (ac_replace_key s (ob_key o) (ar_obs y))) as [q|] eqn:F2;
+  destruct (ob_find (ac_obs_is s t) (acar_obs y)) as [q|] eqn:F; [apply find_del_same; assumption|].
+  destruct (ob_find (ac_obs_is s t) (ac_replace_key s (ob_key o) (acar_obs y))) as [q|] eqn:F2;
     [|reflexivity].
   rewrite (ac_replace_key_sub _ _ _ _ _ _ F2 Hnd) in F. discriminate.
 Qed.
 
 (* Observe:1 with another token but the cache key of the registration *)
 Lemma ac_dereg_cancel_key : forall c st r s t t' o outs st' q,
-  ac_wf (as_res st) -> ac_step c st (OpCancel r s t' o, outs) = AcOk st' ->
-  ac_entry st r s t' = None -> ac_entry st r s t = Some q -> ao_key q = ob_key o ->
-  (forall q', ac_entry st r s (ao_t q') = Some q' -> ao_key q' = ob_key o -> ao_t q' = t) ->
+  ac_wf (acas_res st) -> ac_step c st (ObOpCancel r s t' o, outs) = AcOk st' ->
+  ac_entry st r s t' = None -> ac_entry st r s t = Some q -> acao_key q = ob_key o ->
+  (forall q', ac_entry st r s (acao_t q') = Some q' -> acao_key q' = ob_key o -> acao_t q' = t) ->
   ac_reg st' r s t = false.
 Proof.
   intros c st r s t t' o outs st' q Hwf H Hnone Hq Hkey Huniq. cbn [ac_step] in H.
   apply ac_quiet_inv in H. destruct H as [_ ->]. apply ac_reg_false. unfold ac_entry in *.
-  cbn [as_res ac_set_res]. rewrite ac_find_upd, Z.eqb_refl. unfold ac_find in *.
-  destruct (ac_get r (as_res st)) as [y|] eqn:G; [|reflexivity].
+  cbn [acas_res ac_set_res]. rewrite ac_find_upd, Z.eqb_refl. unfold ac_find in *.
+  destruct (ac_get r (acas_res st)) as [y|] eqn:G; [|reflexivity].
   pose proof (ac_wf_get _ _ _ Hwf G) as Hnd. unfold ac_cancel_obs. rewrite Hnone. unfold ac_replace_key.
-  destruct (ob_find (ac_obs_keyis s (ob_key o)) (ar_obs y)) as [old|] eqn:Fk.
-  - assert (ao_t old = t).
+  destruct (ob_find (ac_obs_keyis s (ob_key o)) (acar_obs y)) as [old|] eqn:Fk.
+  - assert (acao_t old = t).
     { apply ob_find_some in Fk. destruct Fk as [Hin Hk]. unfold ac_obs_keyis in Hk.
       apply andb_true_iff in Hk. destruct Hk as [Hs Hk]. apply Z.eqb_eq in Hs. apply ob_opts_eqb_eq in Hk.
       apply Huniq; [|assumption].
       (* old is found under its own token *)
-      clear - Hin Hnd Hs. induction (ar_obs y) as [|z l IH]; [destruct Hin|]. cbn [ob_find map] in *.
+      clear - Hin Hnd Hs. induction (acar_obs y) as [|z l IH]; [destruct Hin|]. cbn [ob_find map] in *.
       inversion Hnd as [|? ? Hn Hd]; subst. destruct Hin as [->|Hin].
-      - assert (ac_obs_is (ao_s old) (ao_t old) old = true) as -> by (apply ac_obs_is_kt; reflexivity).
+      - assert (ac_obs_is (acao_s old) (acao_t old) old = true) as -> by (apply ac_obs_is_kt; reflexivity).
         reflexivity.
-      - destruct (ac_obs_is (ao_s old) (ao_t old) z) eqn:E; [|apply IH; assumption].
+      - destruct (ac_obs_is (acao_s old) (acao_t old) z) eqn:E; [|apply IH; assumption].
         exfalso. apply Hn. apply ac_obs_is_kt in E. rewrite E. apply (in_map ac_kt) in Hin. exact Hin. }
     subst t. apply find_del_same. assumption.
   - exfalso. pose proof (ob_find_some _ _ _ Hq) as [Hin _].
@@ -1074,14 +1074,14 @@ Qed.
 
 (* an error-class response instead of a notification *)
 Lemma ac_dereg_error : forall c st ca outs st' k r s t con,
-  ac_wf (as_res st) -> ac_step c st (OpIoStep ca, outs) = AcOk st' ->
-  In (OErr k r s t con) outs -> ac_reg st' r s t = false.
+  ac_wf (acas_res st) -> ac_step c st (ObOpIoStep ca, outs) = AcOk st' ->
+  In (ObErr k r s t con) outs -> ac_reg st' r s t = false.
 Proof.
   intros c st ca outs st' k r s t con Hwf H Hin. cbn [ac_step] in H. unfold ac_iostep in H.
-  destruct (ac_outs c (mk_aw (as_res st) (as_fl st) (as_nk st) (as_sent st) ca) outs) as [w|] eqn:E;
+  destruct (ac_outs c (ac_mk_aw (acas_res st) (acas_fl st) (acas_nk st) (acas_sent st) ca) outs) as [w|] eqn:E;
     [|discriminate].
-  destruct (ac_all_settled c (aw_cnt w) (aw_res w)); [|discriminate]. inversion H; subst st'.
-  apply ac_reg_false. unfold ac_entry. cbn [as_res].
+  destruct (ac_all_settled c (acaw_cnt w) (acaw_res w)); [|discriminate]. inversion H; subst st'.
+  apply ac_reg_false. unfold ac_entry. cbn [acas_res].
   (* split the outputs at the error response *)
   apply in_split in Hin. destruct Hin as [o1 [o2 ->]].
   assert (Happ : forall w0 a b, ac_outs c w0 (a ++ b) =
@@ -1089,9 +1089,9 @@ Proof.
   { intros w0 a. revert w0. induction a as [|x a IH]; intros w0 b; cbn [app ac_outs]; [reflexivity|].
     destruct (ac_out_step c w0 x); [apply IH | reflexivity]. }
   rewrite Happ in E.
-  destruct (ac_outs c (mk_aw (as_res st) (as_fl st) (as_nk st) (as_sent st) ca) o1) as [w1|] eqn:E1;
+  destruct (ac_outs c (ac_mk_aw (acas_res st) (acas_fl st) (acas_nk st) (acas_sent st) ca) o1) as [w1|] eqn:E1;
     [|discriminate].
-  cbn [ac_outs] in E. destruct (ac_out_step c w1 (OErr k r s t con)) as [w2|] eqn:E2; [|discriminate].
+  cbn [ac_outs] in E. destruct (ac_out_step c w1 (ObErr k r s t con)) as [w2|] eqn:E2; [|discriminate].
   pose proof (outs_wf _ _ _ _ E1 Hwf) as Hwf1.
   destruct (out_step_err _ _ _ _ _ _ _ _ E2) as [_ Hnone].
   eapply outs_no_new; [eassumption | apply Hnone; assumption].
@@ -1099,21 +1099,21 @@ Qed.
 
 (* the session is lost *)
 Lemma ac_dereg_lost : forall c st s outs st' r t,
-  ac_step c st (OpSessionLost s, outs) = AcOk st' -> ac_reg st' r s t = false.
+  ac_step c st (ObOpSessionLost s, outs) = AcOk st' -> ac_reg st' r s t = false.
 Proof.
   intros c st s outs st' r t H. cbn [ac_step] in H. apply ac_quiet_inv in H. destruct H as [_ ->].
-  apply ac_reg_false. unfold ac_entry, ac_lost. cbn [as_res]. rewrite ac_find_map.
-  destruct (ac_get r (as_res st)); [|reflexivity]. rewrite find_filter_sess, Z.eqb_refl. reflexivity.
+  apply ac_reg_false. unfold ac_entry, ac_lost. cbn [acas_res]. rewrite ac_find_map.
+  destruct (ac_get r (acas_res st)); [|reflexivity]. rewrite find_filter_sess, Z.eqb_refl. reflexivity.
 Qed.
 
 (* the resource is deleted *)
 Lemma ac_dereg_deleted : forall c st r ca outs st' s t,
-  ac_wf (as_res st) -> ac_step c st (OpDeleteResource r ca, outs) = AcOk st' -> ac_reg st' r s t = false.
+  ac_wf (acas_res st) -> ac_step c st (ObOpDeleteResource r ca, outs) = AcOk st' -> ac_reg st' r s t = false.
 Proof.
   intros c st r ca outs st' s t Hwf H. cbn [ac_step] in H. unfold ac_delete in H.
-  destruct (ac_get r (as_res st)) as [res|] eqn:G.
-  - destruct (ac_gone_ok r (ar_obs res) outs); [|discriminate]. inversion H; subst st'.
-    apply ac_reg_false. unfold ac_entry, ac_find. cbn [as_res ac_set_res].
+  destruct (ac_get r (acas_res st)) as [res|] eqn:G.
+  - destruct (ac_gone_ok r (acar_obs res) outs); [|discriminate]. inversion H; subst st'.
+    apply ac_reg_false. unfold ac_entry, ac_find. cbn [acas_res ac_set_res].
     rewrite ac_get_drop_same by apply Hwf. reflexivity.
   - destruct outs; [|discriminate]. inversion H; subst st'. apply ac_reg_false.
     unfold ac_entry, ac_find. rewrite G. reflexivity.
@@ -1123,132 +1123,132 @@ Qed.
 Lemma ac_rst_strict_shrinks : forall s k st rs,
   ac_wf rs -> ac_wf (ac_rst_strict s k st rs) /\ ac_shrinks rs (ac_rst_strict s k st rs).
 Proof.
-  intros s k st rs Hwf. unfold ac_rst_strict. destruct (ac_sent_find k (as_sent st)) as [n|];
+  intros s k st rs Hwf. unfold ac_rst_strict. destruct (ac_sent_find k (acas_sent st)) as [n|];
     [|split; [assumption | intros r1 s1 t1 q Hq; exact Hq]].
-  destruct (sn_s n =? s); [|split; [assumption | intros r1 s1 t1 q Hq; exact Hq]].
+  destruct (acsn_s n =? s); [|split; [assumption | intros r1 s1 t1 q Hq; exact Hq]].
   apply ac_upd_shrinks; [assumption|]. intros l Hl.
-  destruct (ob_find (ac_obs_is s (sn_t n)) l) as [o1|]; [|auto].
-  destruct (ao_since o1 <=? k); [apply del_shrinks_list; assumption | auto].
+  destruct (ob_find (ac_obs_is s (acsn_t n)) l) as [o1|]; [|auto].
+  destruct (acao_since o1 <=? k); [apply del_shrinks_list; assumption | auto].
 Qed.
 
 (* RST answering a confirmable notification that is still being retransmitted *)
 Lemma ac_dereg_rst_inflight : forall c st s k outs st' f r,
-  ac_wf (as_res st) -> ac_step c st (OpRst s k, outs) = AcOk st' ->
-  ob_fl_find s k (as_fl st) = Some f -> ac_reg st' r s (fl_tok f) = false.
+  ac_wf (acas_res st) -> ac_step c st (ObOpRst s k, outs) = AcOk st' ->
+  ob_fl_find s k (acas_fl st) = Some f -> ac_reg st' r s (obfl_tok f) = false.
 Proof.
   intros c st s k outs st' f r Hwf H Hf. cbn [ac_step] in H. apply ac_quiet_inv in H.
   destruct H as [_ ->]. unfold ac_rst. rewrite Hf.
-  set (st1 := mk_as (ac_del_everywhere s (fl_tok f) (as_res st)) _ _ _).
-  assert (W1 : ac_wf (as_res st1)).
+  set (st1 := ac_mk_as (ac_del_everywhere s (obfl_tok f) (acas_res st)) _ _ _).
+  assert (W1 : ac_wf (acas_res st1)).
   { subst st1. cbn. apply ac_map_wf; [|assumption]. intros l Hl. apply nodup_del. assumption. }
-  assert (N1 : ac_entry st1 r s (fl_tok f) = None).
-  { subst st1. unfold ac_entry, ac_del_everywhere. cbn [as_res]. rewrite ac_find_map.
-    destruct (ac_get r (as_res st)) as [y|] eqn:G; [|reflexivity].
+  assert (N1 : ac_entry st1 r s (obfl_tok f) = None).
+  { subst st1. unfold ac_entry, ac_del_everywhere. cbn [acas_res]. rewrite ac_find_map.
+    destruct (ac_get r (acas_res st)) as [y|] eqn:G; [|reflexivity].
     apply find_del_same. exact (ac_wf_get _ _ _ Hwf G). }
-  destruct (cf_strict c); [|apply ac_reg_false; assumption].
-  apply ac_reg_false. unfold ac_entry in *. cbn [as_res ac_set_res].
-  destruct (ac_find (ac_rst_strict s k st (as_res st1)) r s (fl_tok f)) as [q|] eqn:F; [|reflexivity].
+  destruct (accf_strict c); [|apply ac_reg_false; assumption].
+  apply ac_reg_false. unfold ac_entry in *. cbn [acas_res ac_set_res].
+  destruct (ac_find (ac_rst_strict s k st (acas_res st1)) r s (obfl_tok f)) as [q|] eqn:F; [|reflexivity].
   destruct (ac_rst_strict_shrinks s k st _ W1) as [_ Hs]. rewrite (Hs _ _ _ _ F) in N1. discriminate.
 Qed.
 
 (* RST answering the latest notification of an observer (nothing of it in flight) *)
 Lemma ac_dereg_rst_latest : forall c st s k outs st' r t q,
-  ac_wf (as_res st) -> ac_step c st (OpRst s k, outs) = AcOk st' ->
-  ob_fl_find s k (as_fl st) = None -> ac_entry st r s t = Some q -> ao_lastk q = k ->
-  (forall r' t' q', ac_entry st r' s t' = Some q' -> ao_lastk q' = k -> r' = r /\ t' = t) ->
+  ac_wf (acas_res st) -> ac_step c st (ObOpRst s k, outs) = AcOk st' ->
+  ob_fl_find s k (acas_fl st) = None -> ac_entry st r s t = Some q -> acao_lastk q = k ->
+  (forall r' t' q', ac_entry st r' s t' = Some q' -> acao_lastk q' = k -> r' = r /\ t' = t) ->
   ac_reg st' r s t = false.
 Proof.
   intros c st s k outs st' r t q Hwf H Hf Hq Hk Huniq. cbn [ac_step] in H. apply ac_quiet_inv in H.
   destruct H as [_ ->]. unfold ac_rst. rewrite Hf.
-  assert (N1 : ac_find (ac_rst_by_last s k (as_res st)) r s t = None).
+  assert (N1 : ac_find (ac_rst_by_last s k (acas_res st)) r s t = None).
   { unfold ac_entry in *. revert Hq Huniq. destruct Hwf as [A B]. revert A B.
-    induction (as_res st) as [|y rs IH]; intros A B Hq Huniq; [discriminate|].
+    induction (acas_res st) as [|y rs IH]; intros A B Hq Huniq; [discriminate|].
     cbn [map] in A. inversion A as [|a0 l0 Hn Hd]; subst a0 l0.
     inversion B as [|a1 l1 By Brs]; subst a1 l1.
     cbn [ac_rst_by_last].
-    destruct (ob_find (fun o => (ao_lastk o =? k) && (ao_s o =? s)) (ar_obs y)) as [o1|] eqn:F1.
+    destruct (ob_find (fun o => (acao_lastk o =? k) && (acao_s o =? s)) (acar_obs y)) as [o1|] eqn:F1.
     - (* the first resource with such an entry: it must be ours *)
       pose proof (ob_find_some _ _ _ F1) as [Hin1 Hp1]. apply andb_true_iff in Hp1.
       destruct Hp1 as [Hl1 Hs1]. apply Z.eqb_eq in Hl1, Hs1.
-      assert (Hown : ac_find (y :: rs) (ar_id y) s (ao_t o1) = Some o1).
+      assert (Hown : ac_find (y :: rs) (acar_id y) s (acao_t o1) = Some o1).
       { unfold ac_find. cbn [ac_get]. rewrite Z.eqb_refl. clear - Hin1 By Hs1.
-        unfold ac_res_wf in By. induction (ar_obs y) as [|z l IH]; [destruct Hin1|].
+        unfold ac_res_wf in By. induction (acar_obs y) as [|z l IH]; [destruct Hin1|].
         cbn [ob_find map] in *. inversion By as [|? ? Hn Hd]; subst. destruct Hin1 as [->|Hin].
-        - assert (ac_obs_is (ao_s o1) (ao_t o1) o1 = true) as -> by (apply ac_obs_is_kt; reflexivity).
+        - assert (ac_obs_is (acao_s o1) (acao_t o1) o1 = true) as -> by (apply ac_obs_is_kt; reflexivity).
           reflexivity.
-        - destruct (ac_obs_is (ao_s o1) (ao_t o1) z) eqn:E; [|apply IH; assumption].
+        - destruct (ac_obs_is (acao_s o1) (acao_t o1) z) eqn:E; [|apply IH; assumption].
           exfalso. apply Hn. apply ac_obs_is_kt in E. rewrite E. apply (in_map ac_kt) in Hin. exact Hin. }
       destruct (Huniq _ _ _ Hown Hl1) as [Er Et]. subst r t.
-      unfold ac_find. cbn [ac_get ar_id]. rewrite Z.eqb_refl. cbn [ar_obs]. apply find_del_same. assumption.
-    - unfold ac_find in *. cbn [ac_get] in *. destruct (ar_id y =? r) eqn:Er.
+      unfold ac_find. cbn [ac_get acar_id]. rewrite Z.eqb_refl. cbn [acar_obs]. apply find_del_same. assumption.
+    - unfold ac_find in *. cbn [ac_get] in *. destruct (acar_id y =? r) eqn:Er.
       + (* ours is in this resource, yet no entry here has lastk = k *)
         exfalso. pose proof (ob_find_some _ _ _ Hq) as [Hin Hm].
         pose proof (ob_find_none _ _ F1 q Hin) as Hf1. cbv beta in Hf1. unfold ac_obs_is in Hm.
         apply andb_true_iff in Hm. destruct Hm as [Hs _]. rewrite Hk, Z.eqb_refl, Hs in Hf1. discriminate.
       + apply IH; try assumption. intros r' t' q' Hq' Hk'. apply (Huniq r' t' q'); [|assumption].
-        destruct (ar_id y =? r') eqn:Er'; [|assumption]. exfalso. apply Hn.
+        destruct (acar_id y =? r') eqn:Er'; [|assumption]. exfalso. apply Hn.
         destruct (ac_get r' rs) as [y'|] eqn:G'; [|discriminate]. apply ac_get_in in G'.
         destruct G' as [G1 G2]. apply Z.eqb_eq in Er'. rewrite Er', <- G2. apply in_map. assumption. }
-  assert (W1 : ac_wf (ac_rst_by_last s k (as_res st))) by (apply ac_rst_by_last_shrinks; assumption).
-  destruct (cf_strict c); [|apply ac_reg_false; exact N1].
-  apply ac_reg_false. unfold ac_entry. cbn [as_res ac_set_res].
-  destruct (ac_find (ac_rst_strict s k st (ac_rst_by_last s k (as_res st))) r s t) as [q1|] eqn:F;
+  assert (W1 : ac_wf (ac_rst_by_last s k (acas_res st))) by (apply ac_rst_by_last_shrinks; assumption).
+  destruct (accf_strict c); [|apply ac_reg_false; exact N1].
+  apply ac_reg_false. unfold ac_entry. cbn [acas_res ac_set_res].
+  destruct (ac_find (ac_rst_strict s k st (ac_rst_by_last s k (acas_res st))) r s t) as [q1|] eqn:F;
     [|reflexivity].
   destruct (ac_rst_strict_shrinks s k st _ W1) as [_ Hs]. rewrite (Hs _ _ _ _ F) in N1. discriminate.
 Qed.
 
 (* a confirmable notification is given up *)
 Lemma ac_dereg_giveup : forall c st s k outs st' f r,
-  ac_wf (as_res st) -> ac_step c st (OpConFailed s k, outs) = AcOk st' ->
-  ob_fl_find s k (as_fl st) = Some f -> ac_reg st' r s (fl_tok f) = false.
+  ac_wf (acas_res st) -> ac_step c st (ObOpConFailed s k, outs) = AcOk st' ->
+  ob_fl_find s k (acas_fl st) = Some f -> ac_reg st' r s (obfl_tok f) = false.
 Proof.
   intros c st s k outs st' f r Hwf H Hf. cbn [ac_step] in H. apply ac_quiet_inv in H.
   destruct H as [_ ->]. unfold ac_confailed. rewrite Hf. apply ac_reg_false.
-  unfold ac_entry, ac_del_everywhere. cbn [as_res]. rewrite ac_find_map.
-  destruct (ac_get r (as_res st)) as [y|] eqn:G; [|reflexivity].
+  unfold ac_entry, ac_del_everywhere. cbn [acas_res]. rewrite ac_find_map.
+  destruct (ac_get r (acas_res st)) as [y|] eqn:G; [|reflexivity].
   apply find_del_same. eapply ac_wf_get; eassumption.
 Qed.
 
 (* an error-class answer to the registration request itself *)
 Lemma ac_dereg_failed_registration : forall c st r s t o st',
-  ac_wf (as_res st) -> ac_step c st (OpRegister r s t o, [ORegResp r s t None]) = AcOk st' ->
+  ac_wf (acas_res st) -> ac_step c st (ObOpRegister r s t o, [ObRegResp r s t None]) = AcOk st' ->
   ac_reg st' r s t = false.
 Proof.
   intros c st r s t o st' Hwf H. cbn [ac_step] in H. unfold ac_register in H.
-  destruct (ac_get r (as_res st)) as [res|] eqn:G; [|discriminate].
+  destruct (ac_get r (acas_res st)) as [res|] eqn:G; [|discriminate].
   rewrite !Z.eqb_refl, ob_bytes_eqb_refl in H. cbn [andb] in H.
   pose proof (ac_wf_get _ _ _ Hwf G) as Hnd. apply ac_reg_false. unfold ac_entry.
-  destruct (ob_find (ac_obs_is s t) (ar_obs res)) as [o1|] eqn:F; inversion H; subst st';
-    cbn [as_res ac_set_res]; rewrite ac_find_upd, Z.eqb_refl, G.
+  destruct (ob_find (ac_obs_is s t) (acar_obs res)) as [o1|] eqn:F; inversion H; subst st';
+    cbn [acas_res ac_set_res]; rewrite ac_find_upd, Z.eqb_refl, G.
   - apply find_del_same. assumption.
-  - destruct (ob_find (ac_obs_is s t) (ac_replace_key s (ob_key o) (ar_obs res))) as [q|] eqn:F2;
+  - destruct (ob_find (ac_obs_is s t) (ac_replace_key s (ob_key o) (acar_obs res))) as [q|] eqn:F2;
       [|reflexivity].
     rewrite (ac_replace_key_sub _ _ _ _ _ _ F2 Hnd) in F. discriminate.
 Qed.
 
 (* the strict reading of the property: RST for any notification of the current registration *)
 Lemma ac_dereg_rst_strict : forall c st s k outs st' n q,
-  cf_strict c = true -> ac_wf (as_res st) -> ac_step c st (OpRst s k, outs) = AcOk st' ->
-  ac_sent_find k (as_sent st) = Some n -> sn_s n = s ->
-  ac_entry st (sn_r n) s (sn_t n) = Some q -> ao_since q <= k ->
-  ac_reg st' (sn_r n) s (sn_t n) = false.
+  accf_strict c = true -> ac_wf (acas_res st) -> ac_step c st (ObOpRst s k, outs) = AcOk st' ->
+  ac_sent_find k (acas_sent st) = Some n -> acsn_s n = s ->
+  ac_entry st (acsn_r n) s (acsn_t n) = Some q -> acao_since q <= k ->
+  ac_reg st' (acsn_r n) s (acsn_t n) = false.
 Proof.
   intros c st s k outs st' n q Hstrict Hwf H Hn Hs Hq Hsince. cbn [ac_step] in H.
   apply ac_quiet_inv in H. destruct H as [_ ->]. unfold ac_rst. rewrite Hstrict.
-  set (st1 := match ob_fl_find s k (as_fl st) with Some f => _ | None => _ end).
-  assert (W1 : ac_wf (as_res st1) /\ ac_shrinks (as_res st) (as_res st1)).
-  { subst st1. destruct (ob_fl_find s k (as_fl st)) as [f|]; cbn.
+  set (st1 := match ob_fl_find s k (acas_fl st) with Some f => _ | None => _ end).
+  assert (W1 : ac_wf (acas_res st1) /\ ac_shrinks (acas_res st) (acas_res st1)).
+  { subst st1. destruct (ob_fl_find s k (acas_fl st)) as [f|]; cbn.
     - apply ac_map_shrinks; [assumption|]. intros l Hl. apply del_shrinks_list. assumption.
     - apply ac_rst_by_last_shrinks. assumption. }
-  destruct W1 as [W1 W2]. apply ac_reg_false. unfold ac_entry in *. cbn [as_res ac_set_res].
+  destruct W1 as [W1 W2]. apply ac_reg_false. unfold ac_entry in *. cbn [acas_res ac_set_res].
   unfold ac_rst_strict. rewrite Hn, Hs, Z.eqb_refl. rewrite ac_find_upd, Z.eqb_refl.
-  destruct (ac_get (sn_r n) (as_res st1)) as [y|] eqn:G; [|reflexivity].
+  destruct (ac_get (acsn_r n) (acas_res st1)) as [y|] eqn:G; [|reflexivity].
   pose proof (ac_wf_get _ _ _ W1 G) as Hnd.
-  destruct (ob_find (ac_obs_is s (sn_t n)) (ar_obs y)) as [o1|] eqn:F; [|assumption].
+  destruct (ob_find (ac_obs_is s (acsn_t n)) (acar_obs y)) as [o1|] eqn:F; [|assumption].
   assert (Ho : o1 = q).
-  { assert (ac_find (as_res st1) (sn_r n) s (sn_t n) = Some o1) by (unfold ac_find; rewrite G; assumption).
+  { assert (ac_find (acas_res st1) (acsn_r n) s (acsn_t n) = Some o1) by (unfold ac_find; rewrite G; assumption).
     apply W2 in H. congruence. }
-  subst o1. assert (ao_since q <=? k = true) as -> by (apply Z.leb_le; assumption).
+  subst o1. assert (acao_since q <=? k = true) as -> by (apply Z.leb_le; assumption).
   apply find_del_same. assumption.
 Qed.
 
@@ -1256,8 +1256,8 @@ Qed.
 
 (* a message with an Observe value for (r, s, t): a notification or an accepted registration *)
 Definition ac_message (e : ob_op * list ob_out) (r s : Z) (t : ob_tok) (v : Z) : Prop :=
-  (exists k con, In (ONotify k r s t v con) (snd e)) \/
-  (exists o, e = (OpRegister r s t o, [ORegResp r s t (Some v)])).
+  (exists k con, In (ObNotify k r s t v con) (snd e)) \/
+  (exists o, e = (ObOpRegister r s t o, [ObRegResp r s t (Some v)])).
 
 (* a stretch of history during which (r, s, t) stays registered; counts the changes of r *)
 Fixpoint ac_keep (c : ac_cfg) (r s : Z) (t : ob_tok) (st : ac_state)
@@ -1288,7 +1288,7 @@ Proof. intro o. unfold ac_cur, ob_M. apply Z.mod_mod. lia. Qed.
 
 (* one accepted entry: the current value moves by exactly the changes of the resource *)
 Lemma ac_step_cur : forall c st op outs st' r s t o o',
-  ac_wf (as_res st) -> ac_step c st (op, outs) = AcOk st' ->
+  ac_wf (acas_res st) -> ac_step c st (op, outs) = AcOk st' ->
   ac_entry st r s t = Some o -> ac_entry st' r s t = Some o' ->
   ac_cur o' = (ac_cur o + (if ac_is_change op r then 1 else 0)) mod ob_M.
 Proof.
@@ -1306,8 +1306,8 @@ Proof.
 Qed.
 
 Lemma ac_keep_cur : forall c r s t tr st st' n o,
-  ac_wf (as_res st) -> ac_entry st r s t = Some o -> ac_keep c r s t st tr = Some (st', n) ->
-  ac_wf (as_res st') /\ 0 <= n /\
+  ac_wf (acas_res st) -> ac_entry st r s t = Some o -> ac_keep c r s t st tr = Some (st', n) ->
+  ac_wf (acas_res st') /\ 0 <= n /\
   exists o', ac_entry st' r s t = Some o' /\ ac_cur o' = (ac_cur o + n) mod ob_M.
 Proof.
   intros c r s t. induction tr as [|[op outs] tl IH]; intros st st' n o Hwf E0 H; cbn [ac_keep] in H.
@@ -1328,37 +1328,37 @@ Qed.
 (* the value of a message is the observer's current value: before it (if the observer was
    registered) and after it *)
 Lemma ac_message_before : forall c st e st' r s t v o,
-  ac_wf (as_res st) -> ac_step c st e = AcOk st' -> ac_message e r s t v ->
+  ac_wf (acas_res st) -> ac_step c st e = AcOk st' -> ac_message e r s t v ->
   ac_entry st r s t = Some o -> v = ac_cur o.
 Proof.
   intros c st [op outs] st' r s t v o Hwf H [[k [con Hin]]|[opts Heq]] E0.
   - cbn [snd] in Hin. destruct op; cbn [ac_step] in H;
       try (apply ac_quiet_inv in H; destruct H as [-> _]; destruct Hin).
-    + unfold ac_register in H. destruct (ac_get r0 (as_res st)).
+    + unfold ac_register in H. destruct (ac_get r0 (acas_res st)).
       * destruct outs as [|o1 [|o2 outs]]; [discriminate | | destruct o1; discriminate].
         destruct o1; try discriminate. destruct Hin as [Heq|[]]. discriminate.
       * destruct outs; [destruct Hin | discriminate].
     + unfold ac_iostep in H.
-      destruct (ac_outs c (mk_aw (as_res st) (as_fl st) (as_nk st) (as_sent st) ca) outs) as [w|] eqn:E;
+      destruct (ac_outs c (ac_mk_aw (acas_res st) (acas_fl st) (acas_nk st) (acas_sent st) ca) outs) as [w|] eqn:E;
         [|discriminate].
       destruct (outs_entry c r s t outs _ w o E Hwf E0) as [[I1 _]|[k' [v' [con' [_ [I2 [_ [_ [I5 _]]]]]]]]].
       * exfalso. eapply I1. eassumption.
       * destruct (I5 _ _ _ Hin) as [_ [-> _]]. assumption.
-    + unfold ac_delete in H. destruct (ac_get r0 (as_res st)) as [res|].
-      * destruct (ac_gone_ok r0 (ar_obs res) outs) eqn:GO; [|discriminate]. exfalso. clear - GO Hin.
+    + unfold ac_delete in H. destruct (ac_get r0 (acas_res st)) as [res|].
+      * destruct (ac_gone_ok r0 (acar_obs res) outs) eqn:GO; [|discriminate]. exfalso. clear - GO Hin.
         revert GO. induction outs as [|o0 outs IH]; [destruct Hin|]. cbn [ac_gone_ok].
         destruct o0; try discriminate. intro GO. destruct Hin as [Heq|Hin]; [discriminate|].
         apply andb_true_iff in GO. destruct GO as [_ GO]. apply IH; assumption.
       * destruct outs; [destruct Hin | discriminate].
   - inversion Heq; subst op outs. cbn [ac_step] in H. unfold ac_register in H. unfold ac_entry, ac_find in E0.
-    destruct (ac_get r (as_res st)) as [res|]; [|discriminate].
+    destruct (ac_get r (acas_res st)) as [res|]; [|discriminate].
     rewrite !Z.eqb_refl, ob_bytes_eqb_refl in H. cbn [andb] in H. rewrite E0 in H.
-    destruct (v =? (ao_val o + ao_chg o) mod ob_M) eqn:Ev; [|discriminate]. apply Z.eqb_eq. assumption.
+    destruct (v =? (acao_val o + acao_chg o) mod ob_M) eqn:Ev; [|discriminate]. apply Z.eqb_eq. assumption.
 Qed.
 
 Lemma ac_message_after : forall c st e st' r s t v o',
-  ac_wf (as_res st) -> ac_step c st e = AcOk st' -> ac_message e r s t v ->
-  ac_entry st' r s t = Some o' -> ac_cur o' = v /\ ao_chg o' = 0.
+  ac_wf (acas_res st) -> ac_step c st e = AcOk st' -> ac_message e r s t v ->
+  ac_entry st' r s t = Some o' -> ac_cur o' = v /\ acao_chg o' = 0.
 Proof.
   intros c st [op outs] st' r s t v o' Hwf H M E1.
   destruct (ac_step_entry c st op outs st' r s t o' Hwf H E1)
@@ -1381,7 +1381,7 @@ Qed.
 (* C11: two messages to the same registration, n changes of the resource between them:
    the second carries the first value plus n (mod 2^24) *)
 Theorem ac_values_track_changes : forall c st0 e1 st1 mid st2 n e2 st3 r s t v1 v2,
-  ac_wf (as_res st0) ->
+  ac_wf (acas_res st0) ->
   ac_step c st0 e1 = AcOk st1 -> ac_message e1 r s t v1 -> ac_reg st1 r s t = true ->
   ac_keep c r s t st1 mid = Some (st2, n) ->
   ac_step c st2 e2 = AcOk st3 -> ac_message e2 r s t v2 ->
@@ -1409,17 +1409,17 @@ Qed.
 (* ------------------------------------------------------------------ no repeated values, CON cadence *)
 
 Lemma ac_notify_checks : forall c st ca outs st' k r s t v con o,
-  ac_wf (as_res st) -> ac_step c st (OpIoStep ca, outs) = AcOk st' ->
-  In (ONotify k r s t v con) outs -> ac_entry st r s t = Some o ->
-  v = ac_cur o /\ (1 <= ao_chg o \/ ao_weak o = true) /\
-  (ac_mode c r <> 2 -> (if con then 0 else ao_run o + 1) <= cf_max_non c) /\
+  ac_wf (acas_res st) -> ac_step c st (ObOpIoStep ca, outs) = AcOk st' ->
+  In (ObNotify k r s t v con) outs -> ac_entry st r s t = Some o ->
+  v = ac_cur o /\ (1 <= acao_chg o \/ acao_weak o = true) /\
+  (ac_mode c r <> 2 -> (if con then 0 else acao_run o + 1) <= accf_max_non c) /\
   (ac_entry st' r s t = Some (ac_after_notify o v con k) \/ ac_entry st' r s t = None).
 Proof.
   intros c st ca outs st' k r s t v con o Hwf H Hin E0. cbn [ac_step] in H. unfold ac_iostep in H.
-  destruct (ac_outs c (mk_aw (as_res st) (as_fl st) (as_nk st) (as_sent st) ca) outs) as [w|] eqn:E;
+  destruct (ac_outs c (ac_mk_aw (acas_res st) (acas_fl st) (acas_nk st) (acas_sent st) ca) outs) as [w|] eqn:E;
     [|discriminate].
-  destruct (ac_all_settled c (aw_cnt w) (aw_res w)); [|discriminate]. inversion H; subst st'.
-  unfold ac_entry. cbn [as_res].
+  destruct (ac_all_settled c (acaw_cnt w) (acaw_res w)); [|discriminate]. inversion H; subst st'.
+  unfold ac_entry. cbn [acas_res].
   destruct (outs_entry c r s t outs _ w o E Hwf E0)
     as [[I1 _]|[k' [v' [con' [_ [I2 [I3 [I4 [I5 I6]]]]]]]]].
   - exfalso. eapply I1. eassumption.
@@ -1428,10 +1428,10 @@ Qed.
 
 (* a stretch without any message to (r, s, t): its entry only counts the changes *)
 Lemma ac_keep_quiet : forall c r s t tr st st' n o,
-  ac_wf (as_res st) -> ac_entry st r s t = Some o -> ac_keep c r s t st tr = Some (st', n) ->
+  ac_wf (acas_res st) -> ac_entry st r s t = Some o -> ac_keep c r s t st tr = Some (st', n) ->
   (forall e, In e tr -> ac_msg_free (fst e) (snd e) r s t) ->
-  exists o', ac_entry st' r s t = Some o' /\ ao_chg o' = ao_chg o + n /\
-             ao_weak o' = ao_weak o /\ ao_run o' = ao_run o /\ ao_val o' = ao_val o.
+  exists o', ac_entry st' r s t = Some o' /\ acao_chg o' = acao_chg o + n /\
+             acao_weak o' = acao_weak o /\ acao_run o' = acao_run o /\ acao_val o' = acao_val o.
 Proof.
   intros c r s t. induction tr as [|[op outs] tl IH]; intros st st' n o Hwf E0 H Hq; cbn [ac_keep] in H.
   - inversion H; subst. exists o. repeat split; try assumption; lia.
@@ -1455,12 +1455,12 @@ Qed.
 (* C11: a notification never repeats the value of the previous notification - between two
    consecutive notifications to one observer the resource has changed at least once *)
 Theorem ac_notifications_differ : forall c st0 ca1 outs1 st1 mid st2 n ca2 outs2 st3 r s t k1 v1 c1 k2 v2 c2,
-  ac_wf (as_res st0) ->
-  ac_step c st0 (OpIoStep ca1, outs1) = AcOk st1 -> In (ONotify k1 r s t v1 c1) outs1 ->
+  ac_wf (acas_res st0) ->
+  ac_step c st0 (ObOpIoStep ca1, outs1) = AcOk st1 -> In (ObNotify k1 r s t v1 c1) outs1 ->
   ac_reg st1 r s t = true ->
   ac_keep c r s t st1 mid = Some (st2, n) ->
   (forall e, In e mid -> ac_msg_free (fst e) (snd e) r s t) ->
-  ac_step c st2 (OpIoStep ca2, outs2) = AcOk st3 -> In (ONotify k2 r s t v2 c2) outs2 ->
+  ac_step c st2 (ObOpIoStep ca2, outs2) = AcOk st3 -> In (ObNotify k2 r s t v2 c2) outs2 ->
   1 <= n /\ v2 = (v1 + n) mod ob_M.
 Proof.
   intros c st0 ca1 outs1 st1 mid st2 n ca2 outs2 st3 r s t k1 v1 c1 k2 v2 c2 Hwf H1 I1 R1 K Hq H2 I2.
@@ -1468,7 +1468,7 @@ Proof.
   - unfold ac_reg in R1. destruct (ac_entry st1 r s t) as [o1|] eqn:E1; [|discriminate].
     pose proof (ac_step_wf _ _ _ _ Hwf H1) as Hwf1.
     (* after the first notification: nothing missed, not weak *)
-    assert (Ho1 : ao_chg o1 = 0 /\ ao_weak o1 = false).
+    assert (Ho1 : acao_chg o1 = 0 /\ acao_weak o1 = false).
     { destruct (ac_step_entry c st0 _ _ st1 r s t o1 Hwf H1 E1)
         as [[q [_ [[F1 _] _]]]|[[q [ca [k [v [con [_ [_ [_ [_ [_ [_ [_ ->]]]]]]]]]]]]|
             [[q [opts [v [Hop _]]]]|[opts [v [Hop _]]]]]]; try discriminate.
@@ -1486,9 +1486,9 @@ Qed.
 
 (* a stretch without notifications to (r, s, t) keeps its count of non-confirmables *)
 Lemma ac_keep_run : forall c r s t tr st st' n o,
-  ac_wf (as_res st) -> ac_entry st r s t = Some o -> ac_keep c r s t st tr = Some (st', n) ->
+  ac_wf (acas_res st) -> ac_entry st r s t = Some o -> ac_keep c r s t st tr = Some (st', n) ->
   (forall e, In e tr -> ac_no_notify r s t (snd e)) ->
-  ac_wf (as_res st') /\ exists o', ac_entry st' r s t = Some o' /\ ao_run o' = ao_run o.
+  ac_wf (acas_res st') /\ exists o', ac_entry st' r s t = Some o' /\ acao_run o' = acao_run o.
 Proof.
   intros c r s t. induction tr as [|[op outs] tl IH]; intros st st' n o Hwf E0 H Hq; cbn [ac_keep] in H.
   - inversion H; subst. split; [assumption|]. exists o. auto.
@@ -1519,17 +1519,17 @@ Fixpoint ac_non_chain (c : ac_cfg) (r s : Z) (t : ob_tok) (st : ac_state)
       exists st2 n st3 ca outs k v,
         ac_keep c r s t st mid = Some (st2, n) /\
         (forall e', In e' mid -> ac_no_notify r s t (snd e')) /\
-        e = (OpIoStep ca, outs) /\ ac_step c st2 e = AcOk st3 /\
-        In (ONotify k r s t v false) outs /\ ac_reg st3 r s t = true /\
+        e = (ObOpIoStep ca, outs) /\ ac_step c st2 e = AcOk st3 /\
+        In (ObNotify k r s t v false) outs /\ ac_reg st3 r s t = true /\
         ac_non_chain c r s t st3 tl
   end.
 
 (* C11: at least every (COAP_OBS_MAX_NON + 1)-th notification is confirmable: a run of
    non-confirmable notifications to one observer is at most COAP_OBS_MAX_NON long *)
 Theorem ac_con_cadence : forall c r s t segs st o,
-  ac_mode c r <> 2 -> ac_wf (as_res st) -> ac_entry st r s t = Some o ->
+  ac_mode c r <> 2 -> ac_wf (acas_res st) -> ac_entry st r s t = Some o ->
   ac_non_chain c r s t st segs ->
-  ao_run o + Z.of_nat (length segs) <= Z.max (ao_run o) (cf_max_non c).
+  acao_run o + Z.of_nat (length segs) <= Z.max (acao_run o) (accf_max_non c).
 Proof.
   intros c r s t. induction segs as [|[mid e] tl IH]; intros st o Hm Hwf E0 H; cbn [length ac_non_chain] in *.
   - lia.
@@ -1546,8 +1546,8 @@ Qed.
 
 Definition ac_out_con (s : Z) (o : ob_out) : Z :=
   match o with
-  | ONotify _ _ s' _ _ true => if s' =? s then 1 else 0
-  | OErr _ _ s' _ true => if s' =? s then 1 else 0
+  | ObNotify _ _ s' _ _ true => if s' =? s then 1 else 0
+  | ObErr _ _ s' _ true => if s' =? s then 1 else 0
   | _ => 0
   end.
 
@@ -1558,27 +1558,27 @@ Fixpoint ac_count_con (s : Z) (outs : list ob_out) : Z :=
   end.
 
 Lemma out_step_cnt : forall c w o w' s,
-  ac_out_step c w o = inl w' -> ob_ca_get (aw_cnt w') s = ob_ca_get (aw_cnt w) s + ac_out_con s o.
+  ac_out_step c w o = inl w' -> ob_ca_get (acaw_cnt w') s = ob_ca_get (acaw_cnt w) s + ac_out_con s o.
 Proof.
   intros c w o w' s H. destruct o as [k r0 s0 t0 v con|k r0 s0 t0 con| |];
     cbn [ac_out_step] in H; try discriminate.
-  - destruct (negb (k =? aw_nk w)); [discriminate|].
-    destruct (ac_get r0 (aw_res w)) as [res|]; [|discriminate].
-    destruct (ob_find (ac_obs_is s0 t0) (ar_obs res)) as [e|]; [|discriminate].
-    destruct (negb (v =? (ao_val e + ao_chg e) mod ob_M)); [discriminate|].
-    destruct (negb ((1 <=? ao_chg e) || ao_weak e)); [discriminate|].
+  - destruct (negb (k =? acaw_nk w)); [discriminate|].
+    destruct (ac_get r0 (acaw_res w)) as [res|]; [|discriminate].
+    destruct (ob_find (ac_obs_is s0 t0) (acar_obs res)) as [e|]; [|discriminate].
+    destruct (negb (v =? (acao_val e + acao_chg e) mod ob_M)); [discriminate|].
+    destruct (negb ((1 <=? acao_chg e) || acao_weak e)); [discriminate|].
     match type of H with (if ?b then _ else _) = _ => destruct b; [discriminate|] end.
-    inversion H; subst w'. unfold ac_note. cbn [aw_cnt ac_out_con]. destruct con; [|lia].
+    inversion H; subst w'. unfold ac_note. cbn [acaw_cnt ac_out_con]. destruct con; [|lia].
     unfold ob_ca_inc. cbn [ob_ca_get]. destruct (s0 =? s) eqn:E; [|lia]. apply Z.eqb_eq in E. subst. lia.
-  - destruct (negb (k =? aw_nk w)); [discriminate|].
-    destruct (ac_get r0 (aw_res w)) as [res|]; [|discriminate].
-    destruct (ob_find (ac_obs_is s0 t0) (ar_obs res)) as [e|]; [|discriminate].
-    inversion H; subst w'. unfold ac_note. cbn [aw_cnt ac_out_con]. destruct con; [|lia].
+  - destruct (negb (k =? acaw_nk w)); [discriminate|].
+    destruct (ac_get r0 (acaw_res w)) as [res|]; [|discriminate].
+    destruct (ob_find (ac_obs_is s0 t0) (acar_obs res)) as [e|]; [|discriminate].
+    inversion H; subst w'. unfold ac_note. cbn [acaw_cnt ac_out_con]. destruct con; [|lia].
     unfold ob_ca_inc. cbn [ob_ca_get]. destruct (s0 =? s) eqn:E; [|lia]. apply Z.eqb_eq in E. subst. lia.
 Qed.
 
 Lemma outs_cnt : forall c s outs w w',
-  ac_outs c w outs = inl w' -> ob_ca_get (aw_cnt w') s = ob_ca_get (aw_cnt w) s + ac_count_con s outs.
+  ac_outs c w outs = inl w' -> ob_ca_get (acaw_cnt w') s = ob_ca_get (acaw_cnt w) s + ac_count_con s outs.
 Proof.
   intros c s. induction outs as [|o outs IH]; intros w w' H; cbn [ac_outs ac_count_con] in *.
   - inversion H; subst. lia.
@@ -1587,35 +1587,35 @@ Proof.
 Qed.
 
 (* C11: once the I/O loop has run, every registered observer either has been sent the current
-   value (ao_chg = 0: no change since its last message, see ac_chg_counts_changes) or sits
+   value (acao_chg = 0: no change since its last message, see ac_chg_counts_changes) or sits
    behind a full NSTART window: con_active at the start of the step plus the confirmable
    messages of this step to its session reach NSTART.  The same holds after every later step,
    so the first step that finds a free slot delivers the then-current value. *)
 Theorem ac_latest_after_step : forall c st ca outs st' r s t o',
-  ac_step c st (OpIoStep ca, outs) = AcOk st' -> ac_entry st' r s t = Some o' ->
-  ao_chg o' = 0 \/ cf_nstart c <= ob_ca_get ca s + ac_count_con s outs.
+  ac_step c st (ObOpIoStep ca, outs) = AcOk st' -> ac_entry st' r s t = Some o' ->
+  acao_chg o' = 0 \/ accf_nstart c <= ob_ca_get ca s + ac_count_con s outs.
 Proof.
   intros c st ca outs st' r s t o' H E1. cbn [ac_step] in H. unfold ac_iostep in H.
-  destruct (ac_outs c (mk_aw (as_res st) (as_fl st) (as_nk st) (as_sent st) ca) outs) as [w|] eqn:E;
+  destruct (ac_outs c (ac_mk_aw (acas_res st) (acas_fl st) (acas_nk st) (acas_sent st) ca) outs) as [w|] eqn:E;
     [|discriminate].
-  destruct (ac_all_settled c (aw_cnt w) (aw_res w)) eqn:S; [|discriminate]. inversion H; subst st'.
-  unfold ac_entry, ac_find in E1. cbn [as_res] in E1.
-  destruct (ac_get r (aw_res w)) as [y|] eqn:G; [|discriminate].
+  destruct (ac_all_settled c (acaw_cnt w) (acaw_res w)) eqn:S; [|discriminate]. inversion H; subst st'.
+  unfold ac_entry, ac_find in E1. cbn [acas_res] in E1.
+  destruct (ac_get r (acaw_res w)) as [y|] eqn:G; [|discriminate].
   apply ac_get_in in G. destruct G as [Hy _]. apply ob_find_some in E1. destruct E1 as [Ho Hm].
   unfold ac_all_settled in S. rewrite forallb_forall in S. specialize (S y Hy).
   rewrite forallb_forall in S. specialize (S o' Ho). unfold ac_settled in S.
   unfold ac_obs_is in Hm. apply andb_true_iff in Hm. destruct Hm as [Hs _]. apply Z.eqb_eq in Hs.
   apply orb_true_iff in S. destruct S as [S|S]; [left; apply Z.eqb_eq; assumption | right].
-  apply Z.leb_le in S. rewrite Hs in S. rewrite (outs_cnt c s outs _ w E) in S. cbn [aw_cnt] in S. exact S.
+  apply Z.leb_le in S. rewrite Hs in S. rewrite (outs_cnt c s outs _ w E) in S. cbn [acaw_cnt] in S. exact S.
 Qed.
 
-(* the meaning of ao_chg: the number of changes of the resource since the observer's last message *)
+(* the meaning of acao_chg: the number of changes of the resource since the observer's last message *)
 Theorem ac_chg_counts_changes : forall c st0 e1 st1 mid st2 n r s t v1,
-  ac_wf (as_res st0) ->
+  ac_wf (acas_res st0) ->
   ac_step c st0 e1 = AcOk st1 -> ac_message e1 r s t v1 -> ac_reg st1 r s t = true ->
   ac_keep c r s t st1 mid = Some (st2, n) ->
   (forall e, In e mid -> ac_msg_free (fst e) (snd e) r s t) ->
-  exists o2, ac_entry st2 r s t = Some o2 /\ ao_chg o2 = n /\ ao_val o2 = v1.
+  exists o2, ac_entry st2 r s t = Some o2 /\ acao_chg o2 = n /\ acao_val o2 = v1.
 Proof.
   intros c st0 e1 st1 mid st2 n r s t v1 Hwf H1 M1 R1 K Hq.
   unfold ac_reg in R1. destruct (ac_entry st1 r s t) as [o1|] eqn:E1; [|discriminate].
@@ -1625,7 +1625,7 @@ Proof.
   exists o2. split; [assumption|]. split; [lia|].
   (* the value field after a message is the value itself *)
   rewrite A4. unfold ac_cur in C1. rewrite C0, Z.add_0_r in C1.
-  assert (Hr : 0 <= ao_val o1 < ob_M).
+  assert (Hr : 0 <= acao_val o1 < ob_M).
   { destruct e1 as [op outs].
     destruct (ac_step_entry c st0 op outs st1 r s t o1 Hwf H1 E1)
       as [[q [_ [[F1 F2] _]]]|[[q [ca [k [v [con [_ [_ [_ [Hv [_ [_ [_ ->]]]]]]]]]]]]|
@@ -1637,14 +1637,14 @@ Proof.
   rewrite Z.mod_small in C1; assumption.
 Qed.
 
-(* ------------------------------------------------------------------ bounds on ao_run in accepted histories *)
+(* ------------------------------------------------------------------ bounds on acao_run in accepted histories *)
 
 Definition ac_runs_ok (c : ac_cfg) (st : ac_state) : Prop :=
   forall r s t o, ac_entry st r s t = Some o ->
-    0 <= ao_run o /\ (ac_mode c r <> 2 -> ao_run o <= cf_max_non c).
+    0 <= acao_run o /\ (ac_mode c r <> 2 -> acao_run o <= accf_max_non c).
 
 Lemma ac_step_runs_ok : forall c st e st',
-  0 <= cf_max_non c -> ac_wf (as_res st) -> ac_runs_ok c st -> ac_step c st e = AcOk st' ->
+  0 <= accf_max_non c -> ac_wf (acas_res st) -> ac_runs_ok c st -> ac_step c st e = AcOk st' ->
   ac_runs_ok c st'.
 Proof.
   intros c st [op outs] st' Hmn Hwf Hok H r s t o' E1.
@@ -1660,7 +1660,7 @@ Proof.
 Qed.
 
 Lemma ac_go_runs_ok : forall c tr st st',
-  0 <= cf_max_non c -> ac_wf (as_res st) -> ac_runs_ok c st -> ac_go c st tr = Some st' ->
+  0 <= accf_max_non c -> ac_wf (acas_res st) -> ac_runs_ok c st -> ac_go c st tr = Some st' ->
   ac_runs_ok c st'.
 Proof.
   intros c. induction tr as [|e tl IH]; intros st st' Hmn Hwf Hok H; cbn [ac_go] in H.
@@ -1671,8 +1671,8 @@ Qed.
 
 Lemma ac_init_runs_ok : forall c, ac_runs_ok c (ac_init c).
 Proof.
-  intros c r s t o H. exfalso. unfold ac_entry, ac_find, ac_init in H. cbn [as_res] in H.
-  destruct (ac_get r (ac_init_res 0 (cf_modes c))) as [y|] eqn:G; [|discriminate].
+  intros c r s t o H. exfalso. unfold ac_entry, ac_find, ac_init in H. cbn [acas_res] in H.
+  destruct (ac_get r (ac_init_res 0 (accf_modes c))) as [y|] eqn:G; [|discriminate].
   apply ac_get_in in G. destruct G as [G _]. apply ac_init_res_ids in G. destruct G as [_ G].
   rewrite G in H. discriminate.
 Qed.
@@ -1681,13 +1681,30 @@ Qed.
    non-confirmable notifications to one observer of a resource that is not NOTIFY_NON_ALWAYS has
    at most COAP_OBS_MAX_NON members - every (COAP_OBS_MAX_NON + 1)-th notification is confirmable *)
 Theorem ac_con_every : forall c pre st r s t o segs,
-  0 <= cf_max_non c -> ac_mode c r <> 2 ->
+  0 <= accf_max_non c -> ac_mode c r <> 2 ->
   ac_go c (ac_init c) pre = Some st -> ac_entry st r s t = Some o ->
   ac_non_chain c r s t st segs ->
-  Z.of_nat (length segs) <= cf_max_non c.
+  Z.of_nat (length segs) <= accf_max_non c.
 Proof.
   intros c pre st r s t o segs Hmn Hm Hgo E0 Hc.
   pose proof (ac_go_wf c pre _ st (ac_init_wf c) Hgo) as Hwf.
   pose proof (ac_go_runs_ok c pre _ st Hmn (ac_init_wf c) (ac_init_runs_ok c) Hgo r s t o E0) as [A B].
   specialize (B Hm). pose proof (ac_con_cadence c r s t segs st o Hm Hwf E0 Hc). lia.
+Qed.
+
+(* ------------------------------------------------------------------ glue: ac_accepts and ac_go *)
+
+(* acceptance of a whole history = the acceptor runs through it from its (well-formed) initial
+   state; every prefix / segment then runs through as well, which is the form the theorems above use *)
+Theorem ac_accepts_go : forall c t1 t2,
+  ac_accepts c (t1 ++ t2) = true ->
+  ac_wf (acas_res (ac_init c)) /\
+  exists st1 st2, ac_go c (ac_init c) t1 = Some st1 /\ ac_wf (acas_res st1) /\ ac_go c st1 t2 = Some st2.
+Proof.
+  intros c t1 t2 H. split; [apply ac_init_wf|]. unfold ac_accepts in H.
+  destruct (ac_run c (ac_init c) 0 (t1 ++ t2)) as [stf|] eqn:R; [|discriminate].
+  apply ac_run_go in R. rewrite ac_go_app in R.
+  destruct (ac_go c (ac_init c) t1) as [st1|] eqn:G1; [|discriminate].
+  exists st1, stf. split; [reflexivity|]. split; [|assumption].
+  eapply ac_go_wf; [apply ac_init_wf | eassumption].
 Qed.
